@@ -215,16 +215,18 @@ Definition entry_ok (now : Z) (x : tnode) : Prop :=
 
 (* [F] is what is known of a node that is in the graph and not queued: normally that it is
    fresh; in the middle of Clock.Advance, that it is fresh unless it is due *)
-Record nodeInvG (len : nat) (now : Z) (x : tnode) (F : Prop) : Prop := {
+Record nodeInvG (len : nat) (now numv : Z) (x : tnode) (F : Prop) : Prop := {
   ni_zero : inGraph (meta_ x) = false -> zeroed x;
   ni_height : inGraph (meta_ x) = true -> 0 <= height (meta_ x);
   ni_entry : entry_ok now x;
   ni_fresh : inGraph (meta_ x) = true -> hrh (meta_ x) = unset -> F;
   ni_nec : isNecessary x = inGraph (meta_ x);
   ni_leaf : isVar x = false -> children (meta_ x) = [];
-  ni_kids : Forall (fun c => (c < len)%nat) (children (meta_ x))
+  ni_kids : Forall (fun c => (c < len)%nat) (children (meta_ x));
+  ni_chg : changedAt (meta_ x) <= numv;        (* numv = graph.stabilizationNum *)
+  ni_num : 1 <= numv
 }.
-Definition nodeInv (len : nat) (now : Z) (x : tnode) : Prop := nodeInvG len now x (fresh now x).
+Definition nodeInv (len : nat) (now numv : Z) (x : tnode) : Prop := nodeInvG len now numv x (fresh now x).
 
 Lemma entry_ok_mono now t x : now <= t -> entry_ok now x -> entry_ok t x.
 Proof.
@@ -316,10 +318,10 @@ Proof. apply lookup_lt_Some. Qed.
 
 Definition Inv (cfg : list kind) (s : state) : Prop :=
   length (nodes s) = length cfg /\
-  forall m y, nodes s !! m = Some y -> cfg !! m = Some (kind_ y) /\ nodeInv (length cfg) (now s) y.
+  forall m y, nodes s !! m = Some y -> cfg !! m = Some (kind_ y) /\ nodeInv (length cfg) (now s) (num s) y.
 
 Lemma Inv_put cfg s n x x' :
-  Inv cfg s -> nodes s !! n = Some x -> kind_ x' = kind_ x -> nodeInv (length cfg) (now s) x' ->
+  Inv cfg s -> nodes s !! n = Some x -> kind_ x' = kind_ x -> nodeInv (length cfg) (now s) (num s) x' ->
   Inv cfg (put s n x').
 Proof.
   intros [Hlen Hall] Hx Hk Hn. split; [rewrite put_length; exact Hlen|].
@@ -338,30 +340,23 @@ Definition stale_rec (v : Z) (x : tnode) : tnode :=
 Definition zero_rec (x : tnode) : tnode :=
   with_meta x (Meta 0 [] unset unset 0 0 0 (numRecomputes (meta_ x)) false).
 
-Lemma nodeInvG_q len now x F :
-  nodeInvG len now x F -> 0 <= height (meta_ x) -> nodeInvG len now (r_q x) F.
+Lemma nodeInvG_q len now numv x F :
+  nodeInvG len now numv x F -> 0 <= height (meta_ x) -> nodeInvG len now numv (r_q x) F.
 Proof.
-  intros [Hz Hh He Hf Hn Hl Hk] Hge. constructor; simpl; auto.
+  intros [Hz Hh He Hf Hn Hl Hk Hcg Hnm] Hge. constructor; simpl; auto.
   - intros Hg. destruct (Hz Hg) as (_ & _ & Hu). unfold unset in Hu. lia.
   - intros _ Hu. unfold unset in Hu. lia.
 Qed.
 
-Lemma nodeInvG_stale len now x F v :
-  nodeInvG len now x F -> (hrh (meta_ x) = unset -> 0 <= height (meta_ x)) ->
-  nodeInvG len now (stale_rec v x) F.
+Lemma nodeInvG_stale len now numv x F v :
+  nodeInvG len now numv x F -> (hrh (meta_ x) = unset -> 0 <= height (meta_ x)) ->
+  nodeInvG len now numv (stale_rec v x) F.
 Proof.
   intros Hi Hge. unfold stale_rec.
-  assert (Hs : nodeInvG len now (with_meta x (set_setAt (meta_ x) v)) F)
+  assert (Hs : nodeInvG len now numv (with_meta x (set_setAt (meta_ x) v)) F)
     by (destruct Hi; constructor; simpl; auto).
   destruct (Z.eqb_spec (hrh (meta_ x)) unset) as [Hu|]; [|exact Hs].
   apply nodeInvG_q; [exact Hs|simpl; auto].
-Qed.
-
-Lemma nodeInv_zero len now x :
-  nodeInv len now x -> nodeInv len now (zero_rec x).
-Proof.
-  intros [Hz Hh He Hf Hn Hl Hk]. constructor; simpl; auto; try discriminate.
-  intros _. repeat split.
 Qed.
 
 (** * graph.SetStale and Clock.Advance *)
@@ -401,7 +396,7 @@ Qed.
 (* the invariant with [F] depending on the node *)
 Definition InvG (cfg : list kind) (s : state) (F : tnode -> Prop) : Prop :=
   length (nodes s) = length cfg /\
-  forall m y, nodes s !! m = Some y -> cfg !! m = Some (kind_ y) /\ nodeInvG (length cfg) (now s) y (F y).
+  forall m y, nodes s !! m = Some y -> cfg !! m = Some (kind_ y) /\ nodeInvG (length cfg) (now s) (num s) y (F y).
 
 Lemma Inv_InvG cfg s : Inv cfg s <-> InvG cfg s (fresh (now s)).
 Proof. reflexivity. Qed.
@@ -419,7 +414,7 @@ Proof.
     destruct (Hall _ _ Hx) as [Hk Hi]. split.
     + rewrite Hk. unfold stale_rec. destruct (hrh (meta_ x) =? unset); reflexivity.
     + apply nodeInvG_stale; [|exact Hh].
-      destruct Hi as [Hz Hh' He Hf Hn Hl Hkk]. constructor; auto.
+      destruct Hi as [Hz Hh' He Hf Hn Hl Hkk Hcg Hnm]. constructor; auto.
       intros Hg Hu. eapply HF; [| |apply Hf; auto]; unfold stale_rec; destruct (hrh (meta_ x) =? unset); reflexivity.
   - rewrite lookup_put_other in Hy by exact Hne. apply Hall, Hy.
 Qed.
@@ -501,21 +496,21 @@ Proof.
       unfold fresh in *. rewrite Hk, Ho. exact Hfx. }
     assert (H0 : InvG cfg s0 F).
     { destruct HI as [Hlen Hall]. split; [exact Hlen|]. intros m y Hy. destruct (Hall m y Hy) as [Hk Hi].
-      split; [exact Hk|]. destruct Hi as [Hz Hh He Hf Hn Hl Hkk]. constructor; auto.
+      split; [exact Hk|]. destruct Hi as [Hz Hh He Hf Hn Hl Hkk Hcg Hnm]. constructor; auto.
       - simpl. eapply entry_ok_mono; eauto.
       - intros Hg Hu Hnd. eapply fresh_not_due; eauto. }
     pose proof (SetStale_loop_InvG gd cfg F _ HF _ _ H0 Hr) as [Hlen H2].
     destruct (SetStale_loop gd _ _ _ Hr) as (Hnow & Hnum & Hfr).
     split; [|split; [rewrite Hnow; simpl; lia|rewrite Hnum; reflexivity]].
     split; [exact Hlen|]. intros m y' Hy'. destruct (H2 m y' Hy') as [Hk Hi]. split; [exact Hk|].
-    destruct Hi as [Hz Hh He Hf Hn Hl Hkk]. constructor; auto.
+    destruct Hi as [Hz Hh He Hf Hn Hl Hkk Hcg Hnm]. constructor; auto.
     intros Hg Hu. rewrite Hnow. simpl. apply Hf; auto.
     intros a Ha. destruct (Z.lt_ge_cases t a) as [|Hle]; [assumption|]. exfalso.
     destruct (Hfr m y' Hy') as (y & Hy & Ho & _ & Hgy & Hhy & _ & Hin).
     apply Hin; auto.
     + apply elem_of_due. exists y, a. rewrite <- Ho. auto.
     + congruence.
-    + destruct H0 as [_ H0]. destruct (H0 m y Hy) as [_ Hiy]. apply (ni_height _ _ _ _ Hiy). congruence.
+    + destruct H0 as [_ H0]. destruct (H0 m y Hy) as [_ Hiy]. apply (ni_height _ _ _ _ _ Hiy). congruence.
 Qed.
 
 (** * Becoming necessary: observeNode *)
@@ -630,21 +625,79 @@ Lemma isNecessary_observed x k :
   isNecessary (with_meta x (set_observers (meta_ x) (S k))) = true.
 Proof. reflexivity. Qed.
 
-Lemma Observe_Inv cfg now0 s n s' :
-  cfg_ok now0 cfg -> Inv cfg s -> Observe s n = Ok s' ->
-  Inv cfg s' /\ now s' = now s /\ num s' = num s.
+(* what an observe / unobserve of node [n] does to the parts of the state the Snapshot law
+   speaks about: own fields are untouched everywhere, nodes other than [n] that are not
+   vars are untouched altogether, and [n]'s observer count changes by [f] *)
+Definition oframe (n : nid) (f : nat -> nat) (s s' : state) : Prop :=
+  (forall k y', nodes s' !! k = Some y' ->
+     exists y, nodes s !! k = Some y /\ own_ y' = own_ y /\ kind_ y' = kind_ y) /\
+  (forall k y, nodes s !! k = Some y -> k <> n -> isVar y = false -> nodes s' !! k = Some y) /\
+  (forall x, nodes s !! n = Some x ->
+     exists x', nodes s' !! n = Some x' /\ observers (meta_ x') = f (observers (meta_ x)) /\
+                (isVar x = false -> children (meta_ x') = children (meta_ x))).
+
+Lemma oframe_refl n f s : (forall k, f k = k) -> oframe n f s s.
 Proof.
-  intros Hc HI. unfold Observe. destruct (get s n) as [x| |] eqn:Hx; cbn [rbind]; try discriminate.
-  apply get_Ok in Hx. pose proof (lookup_lt _ _ _ Hx) as Hlt.
+  intros Hf. split; [|split].
+  - intros k y' Hy'. exists y'. auto.
+  - auto.
+  - intros x Hx. exists x. rewrite Hf. auto.
+Qed.
+
+Lemma oframe_put1 s n x x' f :
+  nodes s !! n = Some x -> own_ x' = own_ x -> kind_ x' = kind_ x ->
+  observers (meta_ x') = f (observers (meta_ x)) ->
+  (isVar x = false -> children (meta_ x') = children (meta_ x)) ->
+  oframe n f s (put s n x').
+Proof.
+  intros Hx Ho Hk Hob Hch. pose proof (lookup_lt _ _ _ Hx) as Hlt. split; [|split].
+  - intros k y' Hy'. destruct (decide (k = n)) as [->|Hne].
+    + rewrite lookup_put_same in Hy' by exact Hlt. injection Hy' as <-. exists x. auto.
+    + rewrite lookup_put_other in Hy' by exact Hne. exists y'. auto.
+  - intros k y Hy Hne _. rewrite lookup_put_other by exact Hne. exact Hy.
+  - intros x0 Hx0. rewrite Hx in Hx0. injection Hx0 as <-. exists x'.
+    rewrite lookup_put_same by exact Hlt. auto.
+Qed.
+
+Lemma oframe_put2 s n x x' p px px' f :
+  nodes s !! n = Some x -> nodes s !! p = Some px -> p <> n -> isVar px = true ->
+  own_ x' = own_ x -> kind_ x' = kind_ x -> own_ px' = own_ px -> kind_ px' = kind_ px ->
+  observers (meta_ x') = f (observers (meta_ x)) ->
+  (isVar x = false -> children (meta_ x') = children (meta_ x)) ->
+  oframe n f s (put (put s p px') n x').
+Proof.
+  intros Hx Hpx Hpn Hvp Ho Hk Hop Hkp Hob Hch.
+  pose proof (lookup_lt _ _ _ Hx) as Hlt. pose proof (lookup_lt _ _ _ Hpx) as Hltp.
+  assert (Hlt' : (n < length (nodes (put s p px')))%nat) by (rewrite put_length; exact Hlt).
+  split; [|split].
+  - intros k y' Hy'. destruct (decide (k = n)) as [->|Hne].
+    + rewrite lookup_put_same in Hy' by exact Hlt'. injection Hy' as <-. exists x. auto.
+    + rewrite lookup_put_other in Hy' by exact Hne. destruct (decide (k = p)) as [->|Hnp].
+      * rewrite lookup_put_same in Hy' by exact Hltp. injection Hy' as <-. exists px. auto.
+      * rewrite lookup_put_other in Hy' by exact Hnp. exists y'. auto.
+  - intros k y Hy Hne Hv. rewrite lookup_put_other by exact Hne.
+    rewrite lookup_put_other; [exact Hy|]. intros ->. congruence.
+  - intros x0 Hx0. rewrite Hx in Hx0. injection Hx0 as <-. exists x'.
+    rewrite lookup_put_same by exact Hlt'. auto.
+Qed.
+
+Lemma Observe_ok cfg now0 s n :
+  cfg_ok now0 cfg -> Inv cfg s -> (n < length (nodes s))%nat ->
+  exists s', Observe s n = Ok s' /\ Inv cfg s' /\ now s' = now s /\ num s' = num s /\ oframe n S s s'.
+Proof.
+  intros Hc HI Hlt. destruct (lookup_lt_is_Some_2 _ _ Hlt) as [x Hx].
+  unfold Observe. rewrite (proj2 (get_Ok _ _ _) Hx). cbn [rbind].
   destruct HI as [Hlen Hall]. destruct (Hall _ _ Hx) as [Hcx Hix].
   set (x1 := with_meta x (set_observers (meta_ x) (S (observers (meta_ x))))).
-  assert (Hi1 : inGraph (meta_ x) = true -> nodeInv (length cfg) (now s) x1).
-  { intros Hg. destruct Hix as [Hz Hh He Hf Hn Hl Hk]. constructor; auto; try (rewrite Hg; reflexivity). }
+  assert (Hi1 : inGraph (meta_ x) = true -> nodeInv (length cfg) (now s) (num s) x1).
+  { intros Hg. destruct Hix as [Hz Hh He Hf Hn Hl Hk Hcg Hnm]. constructor; auto; try (rewrite Hg; reflexivity). }
   fold x1. destruct (isNecessary x) eqn:Hnec.
-  - intros [= <-]. split; [|auto]. apply (Inv_put cfg s n x x1); [split; auto|exact Hx|reflexivity|].
-    apply Hi1. rewrite <- (ni_nec _ _ _ _ Hix). exact Hnec.
-  - assert (Hg : inGraph (meta_ x) = false) by (rewrite <- (ni_nec _ _ _ _ Hix); exact Hnec).
-    destruct (ni_zero _ _ _ _ Hix Hg) as (Hrec & Hhrh & Hhe).
+  - eexists. split; [reflexivity|]. split; [|split; [reflexivity|split; [reflexivity|]]].
+    + apply (Inv_put cfg s n x x1); [split; auto|exact Hx|reflexivity|].
+      apply Hi1. rewrite <- (ni_nec _ _ _ _ _ Hix). exact Hnec.
+    + apply (oframe_put1 s n x x1 S); auto.
+  - assert (Hg : inGraph (meta_ x) = false) by (rewrite <- (ni_nec _ _ _ _ _ Hix); exact Hnec).
+    destruct (ni_zero _ _ _ _ _ Hix Hg) as (Hrec & Hhrh & Hhe).
     set (s1 := put s n x1).
     assert (Hx1 : nodes s1 !! n = Some x1) by (apply lookup_put_same, Hlt).
     unfold fuel_of. unfold s1 at 1. rewrite put_length.
@@ -657,39 +710,1213 @@ Proof.
       destruct Hl as [len' Hl]. rewrite Hl.
       assert (Hh' : 0 <= height (meta_ (bn_parent px n))).
       { unfold bn_parent. destruct (isNecessary px) eqn:Hnp.
-        - simpl. apply (ni_height _ _ _ _ Hip). rewrite <- (ni_nec _ _ _ _ Hip). exact Hnp.
+        - simpl. apply (ni_height _ _ _ _ _ Hip). rewrite <- (ni_nec _ _ _ _ _ Hip). exact Hnp.
         - unfold bn_leaf. destruct (_ && _ && _); simpl; lia. }
       rewrite (BN_snap len' s1 n x1 p at_ before px); auto.
       2: { unfold s1. rewrite lookup_put_other by exact Hpn. exact Hpx. }
-      intros [= <-]. split; [|auto].
       unfold s1. rewrite put_put. rewrite (put_comm s n _ p _) by congruence. rewrite put_put.
+      assert (Hkb : kind_ (bn_parent px n) = kind_ px).
+      { unfold bn_parent, bn_leaf. destruct (isNecessary px); [reflexivity|]. destruct (_ && _ && _); reflexivity. }
+      assert (Hob : own_ (bn_parent px n) = own_ px).
+      { unfold bn_parent, bn_leaf. destruct (isNecessary px); [reflexivity|]. destruct (_ && _ && _); reflexivity. }
+      eexists. split; [reflexivity|]. split; [|split; [reflexivity|split; [reflexivity|]]].
+      2: { apply (oframe_put2 s n x _ p px _ S); auto. }
       eapply (Inv_put cfg _ n x).
-      - eapply (Inv_put cfg s p px); [split; auto|exact Hpx| |].
-        + unfold bn_parent, bn_leaf. destruct (isNecessary px); [reflexivity|]. destruct (_ && _ && _); reflexivity.
-        + destruct Hip as [Hz Hh He Hf Hn Hl' Hkk].
-          assert (Hkids : Forall (fun c => (c < length cfg)%nat) (children (meta_ px) ++ [n])).
-          { apply Forall_app. split; [exact Hkk|]. constructor; [lia|constructor]. }
-          assert (Hnn : isNecessary (link_rec px n) = true).
-          { unfold isNecessary, link_rec. simpl. destruct (children (meta_ px)); simpl; apply orb_true_r. }
-          unfold bn_parent. destruct (isNecessary px) eqn:Hnp.
-          * constructor; simpl; auto; try congruence.
-            change (isVar (link_rec px n)) with (isVar px). rewrite Hvp. discriminate.
-          * unfold bn_leaf. change (isVar (link_rec px n)) with (isVar px). rewrite Hvp. cbn [negb andb].
-            constructor; simpl; auto; try discriminate; try lia.
-            -- intros _ _. unfold fresh. simpl. rewrite Hkp. exact I.
-            -- change (isVar (r_in (link_rec px n))) with (isVar px). rewrite Hvp. discriminate.
+      - eapply (Inv_put cfg s p px); [split; auto|exact Hpx|exact Hkb|].
+        destruct Hip as [Hz Hh He Hf Hn Hl' Hkk Hcg Hnm].
+        assert (Hkids : Forall (fun c => (c < length cfg)%nat) (children (meta_ px) ++ [n])).
+        { apply Forall_app. split; [exact Hkk|]. constructor; [lia|constructor]. }
+        assert (Hnn : isNecessary (link_rec px n) = true).
+        { unfold isNecessary, link_rec. simpl. destruct (children (meta_ px)); simpl; apply orb_true_r. }
+        unfold bn_parent. destruct (isNecessary px) eqn:Hnp.
+        * constructor; simpl; auto; try congruence.
+          change (isVar (link_rec px n)) with (isVar px). rewrite Hvp. discriminate.
+        * unfold bn_leaf. change (isVar (link_rec px n)) with (isVar px). rewrite Hvp. cbn [negb andb].
+          constructor; simpl; auto; try discriminate; try lia.
+          -- intros _ _. unfold fresh. simpl. rewrite Hkp. exact I.
+          -- change (isVar (r_in (link_rec px n))) with (isVar px). rewrite Hvp. discriminate.
       - rewrite lookup_put_other by congruence. exact Hx.
       - reflexivity.
-      - destruct Hix as [Hz Hh He Hf Hn Hl' Hkk]. unfold bn_snap.
+      - destruct Hix as [Hz Hh He Hf Hn Hl' Hkk Hcg Hnm]. unfold bn_snap.
         constructor; simpl; auto; try discriminate; try lia.
         intros _ Hu. unfold unset in Hu. lia. }
     all: (* kinds without inputs *)
       assert (Hp : nodeParents x1 = []) by (unfold nodeParents; simpl; rewrite Hk; reflexivity);
-      rewrite (BN_leaf _ s1 n x1 Hx1 Hp); intros [= <-]; (split; [|auto]);
-      unfold s1; rewrite put_put;
-      apply (Inv_put cfg s n x); [split; auto|exact Hx|unfold bn_leaf; destruct (_ && _ && _); reflexivity|];
-      destruct Hix as [Hz Hh He Hf Hn Hl' Hkk]; unfold bn_leaf, isVar; simpl; rewrite Hk, Hrec, Hhrh; simpl;
-      constructor; simpl; auto; try discriminate; try lia;
-      try (intros _ _; unfold fresh; simpl; rewrite Hk; exact I);
-      try (intros _ Hu; unfold unset in Hu; lia).
+      rewrite (BN_leaf _ s1 n x1 Hx1 Hp); unfold s1; rewrite put_put;
+      (eexists; split; [reflexivity|]; split; [|split; [reflexivity|split; [reflexivity|]]]);
+      [ apply (Inv_put cfg s n x); [split; auto|exact Hx|unfold bn_leaf; destruct (_ && _ && _); reflexivity|];
+        destruct Hix as [Hz Hh He Hf Hn Hl' Hkk Hcg Hnm]; unfold bn_leaf, isVar; simpl; rewrite Hk, Hrec, Hhrh; simpl;
+        constructor; simpl; auto; try discriminate; try lia;
+        try (intros _ _; unfold fresh; simpl; rewrite Hk; exact I);
+        try (intros _ Hu; unfold unset in Hu; lia)
+      | apply (oframe_put1 s n x _ S); auto; unfold bn_leaf; destruct (_ && _ && _); reflexivity ].
 Qed.
+
+Lemma Observe_Inv cfg now0 s n s' :
+  cfg_ok now0 cfg -> Inv cfg s -> Observe s n = Ok s' ->
+  Inv cfg s' /\ now s' = now s /\ num s' = num s /\ oframe n S s s'.
+Proof.
+  intros Hc HI H.
+  assert (Hlt : (n < length (nodes s))%nat).
+  { unfold Observe in H. destruct (get s n) as [x| |] eqn:Hx; try discriminate. apply get_Ok in Hx. eapply lookup_lt; eauto. }
+  destruct (Observe_ok cfg now0 s n Hc HI Hlt) as (s'' & H' & R). rewrite H in H'. injection H' as <-. exact R.
+Qed.
+
+(** * Becoming unnecessary: unobserveNode *)
+Lemma BU_unfold fuel s n :
+  becameUnnecessary (S fuel) s n =
+  (x <-! get s n;
+   if negb (inGraph (meta_ x)) then Ok s else
+   s <-! rfold (fun s p =>
+                  px <-! get s p;
+                  let px := with_meta px (set_children (meta_ px)
+                                            (filter (fun c => negb (Nat.eqb c n)) (children (meta_ px)))) in
+                  let s := put s p px in
+                  if isNecessary px then Ok s else becameUnnecessary fuel s p)
+               (nodeParents x) s;
+   x <-! get s n;
+   let s := put s n (with_meta x (set_inGraph (meta_ x) false)) in
+   zeroNode s n).
+Proof. reflexivity. Qed.
+
+Lemma nodeInv_zero' len now numv x : entry_ok now x -> 1 <= numv -> nodeInv len now numv (zero_rec x).
+Proof.
+  intros He Hn1. constructor; simpl; auto; try discriminate; try lia.
+  intros _. repeat split.
+Qed.
+
+Lemma BU_leaf f s n x :
+  nodes s !! n = Some x -> nodeParents x = [] ->
+  becameUnnecessary (S f) s n = Ok (if inGraph (meta_ x) then put s n (zero_rec x) else s).
+Proof.
+  intros Hx Hp. pose proof (lookup_lt _ _ _ Hx) as Hlt.
+  rewrite BU_unfold. rewrite (proj2 (get_Ok _ _ _) Hx). cbn [rbind].
+  destruct (inGraph (meta_ x)); [|reflexivity]. cbn [negb].
+  rewrite Hp. cbn [rfold rbind]. rewrite (proj2 (get_Ok _ _ _) Hx). cbn [rbind].
+  unfold zeroNode. rewrite get_put_same by exact Hlt. cbn [rbind]. rewrite put_put. reflexivity.
+Qed.
+
+Definition unlink_rec (px : tnode) (n : nid) : tnode :=
+  with_meta px (set_children (meta_ px) (filter (fun c => negb (Nat.eqb c n)) (children (meta_ px)))).
+Definition bu_parent (px : tnode) (n : nid) : tnode :=
+  let px1 := unlink_rec px n in
+  if isNecessary px1 then px1 else if inGraph (meta_ px1) then zero_rec px1 else px1.
+
+Lemma BU_snap f s n x p at_ before px :
+  nodes s !! n = Some x -> kind_ x = KSnapshot p at_ before -> p <> n ->
+  nodes s !! p = Some px -> nodeParents px = [] -> inGraph (meta_ x) = true ->
+  becameUnnecessary (S (S f)) s n = Ok (put (put s p (bu_parent px n)) n (zero_rec x)).
+Proof.
+  intros Hx Hk Hpn Hpx Hpp Hg.
+  pose proof (lookup_lt _ _ _ Hx) as Hlt. pose proof (lookup_lt _ _ _ Hpx) as Hltp.
+  rewrite BU_unfold. rewrite (proj2 (get_Ok _ _ _) Hx). cbn [rbind]. rewrite Hg. cbn [negb].
+  unfold nodeParents at 1. rewrite Hk. cbn [rfold rbind].
+  rewrite (proj2 (get_Ok _ _ _) Hpx). cbn [rbind]. fold (unlink_rec px n).
+  set (s2 := put s p (unlink_rec px n)).
+  assert (Hs3 : (if isNecessary (unlink_rec px n) then Ok s2 else becameUnnecessary (S f) s2 p)
+                = Ok (put s p (bu_parent px n))).
+  { unfold bu_parent. cbv zeta. destruct (isNecessary (unlink_rec px n)); [reflexivity|].
+    rewrite (BU_leaf f s2 p (unlink_rec px n)).
+    - destruct (inGraph (meta_ (unlink_rec px n))); [unfold s2; rewrite put_put|]; reflexivity.
+    - apply lookup_put_same, Hltp.
+    - exact Hpp. }
+  rewrite Hs3. cbn [rbind].
+  rewrite get_put_other by congruence. rewrite (proj2 (get_Ok _ _ _) Hx). cbn [rbind].
+  unfold zeroNode. rewrite get_put_same by (rewrite put_length; exact Hlt). cbn [rbind].
+  rewrite put_put. reflexivity.
+Qed.
+
+Lemma Forall_filter_bool {X} (P : X -> Prop) (q : X -> bool) (l : list X) :
+  Forall P l -> Forall P (filter (fun c => q c) l).
+Proof.
+  induction 1 as [|a l Ha Hl IH]; [constructor|].
+  rewrite filter_cons. destruct (decide (q a)); [constructor|]; auto.
+Qed.
+
+Lemma Unobserve_ok cfg now0 s n :
+  cfg_ok now0 cfg -> Inv cfg s -> (n < length (nodes s))%nat ->
+  exists s', Unobserve s n = Ok s' /\ Inv cfg s' /\ now s' = now s /\ num s' = num s /\ oframe n Nat.pred s s'.
+Proof.
+  intros Hc HI Hlt. destruct (lookup_lt_is_Some_2 _ _ Hlt) as [x Hx].
+  unfold Unobserve. rewrite (proj2 (get_Ok _ _ _) Hx). cbn [rbind].
+  destruct (observers (meta_ x)) as [|k] eqn:Hobs.
+  { eexists. split; [reflexivity|]. split; [exact HI|]. split; [reflexivity|]. split; [reflexivity|].
+    split; [|split].
+    - intros k y' Hy'. exists y'. auto.
+    - auto.
+    - intros x0 Hx0. rewrite Hx in Hx0. injection Hx0 as <-. exists x. rewrite Hobs. auto. }
+  destruct HI as [Hlen Hall]. destruct (Hall _ _ Hx) as [Hcx Hix].
+  assert (Hg : inGraph (meta_ x) = true).
+  { rewrite <- (ni_nec _ _ _ _ _ Hix). unfold isNecessary. rewrite Hobs. reflexivity. }
+  set (x1 := with_meta x (set_observers (meta_ x) k)).
+  destruct (isNecessary x1) eqn:Hnec.
+  - eexists. split; [reflexivity|]. split; [|split; [reflexivity|split; [reflexivity|]]].
+    + apply (Inv_put cfg s n x x1); [split; auto|exact Hx|reflexivity|].
+      destruct Hix as [Hz Hh He Hf Hn Hl Hkk Hcg Hnm]. constructor; auto. rewrite Hnec. symmetry. exact Hg.
+    + apply (oframe_put1 s n x x1 Nat.pred); auto. simpl. rewrite Hobs. reflexivity.
+  - assert (Hk0 : k = O).
+    { unfold isNecessary in Hnec. simpl in Hnec. apply orb_false_iff in Hnec as [Hk0 _].
+      destruct k; [reflexivity|discriminate]. }
+    assert (Hch : isVar x = false -> [] = children (meta_ x)).
+    { intros Hv. symmetry. apply (ni_leaf _ _ _ _ _ Hix Hv). }
+    set (s1 := put s n x1).
+    assert (Hx1 : nodes s1 !! n = Some x1) by (apply lookup_put_same, Hlt).
+    unfold fuel_of. unfold s1 at 1. rewrite put_length.
+    destruct (kind_ x) as [v0|when|start every|initial steps|p at_ before] eqn:Hk.
+    5: {
+      destruct (snapshot_parent cfg now0 s n x p at_ before Hc (conj Hlen Hall) Hx Hk) as (px & v0 & Hpx & Hkp & Hpn).
+      destruct (var_no_parents _ _ Hkp) as [Hpp Hvp].
+      destruct (Hall _ _ Hpx) as [Hcp Hip].
+      assert (Hl : exists len', length (nodes s) = S len') by (destruct (length (nodes s)); [lia|eauto]).
+      destruct Hl as [len' Hl]. rewrite Hl.
+      rewrite (BU_snap len' s1 n x1 p at_ before px); auto.
+      2: { unfold s1. rewrite lookup_put_other by exact Hpn. exact Hpx. }
+      unfold s1. rewrite (put_comm s n _ p _) by congruence. rewrite put_put.
+      assert (Hkb : kind_ (bu_parent px n) = kind_ px).
+      { unfold bu_parent. cbv zeta. destruct (isNecessary (unlink_rec px n)); [reflexivity|].
+        destruct (inGraph (meta_ (unlink_rec px n))); reflexivity. }
+      assert (Hob : own_ (bu_parent px n) = own_ px).
+      { unfold bu_parent. cbv zeta. destruct (isNecessary (unlink_rec px n)); [reflexivity|].
+        destruct (inGraph (meta_ (unlink_rec px n))); reflexivity. }
+      eexists. split; [reflexivity|]. split; [|split; [reflexivity|split; [reflexivity|]]].
+      2: { apply (oframe_put2 s n x _ p px _ Nat.pred); auto. simpl. rewrite Hobs, Hk0. reflexivity. }
+      eapply (Inv_put cfg _ n x).
+      - eapply (Inv_put cfg s p px); [split; auto|exact Hpx|exact Hkb|].
+        destruct Hip as [Hz Hh He Hf Hn Hl' Hkk Hcg Hnm].
+        assert (Hkids : Forall (fun c => (c < length cfg)%nat)
+                               (filter (fun c => negb (Nat.eqb c n)) (children (meta_ px))))
+          by (apply (Forall_filter_bool _ (fun c => negb (Nat.eqb c n))), Hkk).
+        unfold bu_parent. cbv zeta. destruct (isNecessary (unlink_rec px n)) eqn:Hnp.
+        * assert (Hnpx : isNecessary px = true).
+          { unfold isNecessary, unlink_rec in *. simpl in Hnp.
+            destruct (0 <? observers (meta_ px))%nat; [reflexivity|]. simpl in *.
+            destruct (children (meta_ px)); [rewrite filter_nil in Hnp; discriminate|reflexivity]. }
+          constructor; simpl; auto; try congruence.
+          change (isVar (unlink_rec px n)) with (isVar px). rewrite Hvp. discriminate.
+        * destruct (inGraph (meta_ (unlink_rec px n))) eqn:Hgp.
+          -- apply nodeInv_zero'; [exact He|exact Hnm].
+          -- constructor; simpl; auto; try congruence.
+             ++ rewrite Hnp. symmetry. exact Hgp.
+             ++ change (isVar (unlink_rec px n)) with (isVar px). rewrite Hvp. discriminate.
+      - rewrite lookup_put_other by congruence. exact Hx.
+      - reflexivity.
+      - apply nodeInv_zero'; [apply (ni_entry _ _ _ _ _ Hix)|apply (ni_num _ _ _ _ _ Hix)]. }
+    all: assert (Hp : nodeParents x1 = []) by (unfold nodeParents; simpl; rewrite Hk; reflexivity);
+      rewrite (BU_leaf _ s1 n x1 Hx1 Hp); change (inGraph (meta_ x1)) with (inGraph (meta_ x)); rewrite Hg;
+      unfold s1; rewrite put_put;
+      (eexists; split; [reflexivity|]; split; [|split; [reflexivity|split; [reflexivity|]]]);
+      [ apply (Inv_put cfg s n x); [split; auto|exact Hx|reflexivity|];
+        apply nodeInv_zero'; [apply (ni_entry _ _ _ _ _ Hix)|apply (ni_num _ _ _ _ _ Hix)]
+      | apply (oframe_put1 s n x _ Nat.pred); auto; simpl; rewrite Hobs, Hk0; reflexivity ].
+Qed.
+
+Lemma Unobserve_Inv cfg now0 s n s' :
+  cfg_ok now0 cfg -> Inv cfg s -> Unobserve s n = Ok s' ->
+  Inv cfg s' /\ now s' = now s /\ num s' = num s /\ oframe n Nat.pred s s'.
+Proof.
+  intros Hc HI H.
+  assert (Hlt : (n < length (nodes s))%nat).
+  { unfold Unobserve in H. destruct (get s n) as [x| |] eqn:Hx; try discriminate. apply get_Ok in Hx. eapply lookup_lt; eauto. }
+  destruct (Unobserve_ok cfg now0 s n Hc HI Hlt) as (s'' & H' & R). rewrite H in H'. injection H' as <-. exact R.
+Qed.
+
+(** * Var.Set *)
+Lemma fresh_own_stable now : own_stable (fresh now).
+Proof. intros x x' Hk Ho. unfold fresh. rewrite Hk, Ho. auto. Qed.
+
+Lemma SetInput_Inv gd cfg s n v s' :
+  Inv cfg s -> SetInput gd s n v = Ok s' -> Inv cfg s' /\ now s' = now s /\ num s' = num s.
+Proof.
+  intros HI. unfold SetInput. destruct (get s n) as [x| |] eqn:Hx; cbn [rbind]; try discriminate.
+  apply get_Ok in Hx. destruct (isVar x) eqn:Hv; [|intros [= <-]; auto].
+  set (x1 := with_own x (Own v (taken (own_ x)) (entry (own_ x)))).
+  assert (H1 : Inv cfg (put s n x1)).
+  { destruct HI as [Hlen Hall]. destruct (Hall _ _ Hx) as [Hcx Hix].
+    apply (Inv_put cfg s n x x1); [split; auto|exact Hx|reflexivity|].
+    unfold isVar in Hv. destruct (kind_ x) eqn:Hk; try discriminate.
+    destruct Hix as [Hz Hh He Hf Hn Hl Hkk Hcg Hnm]. constructor; auto.
+    - unfold entry_ok in *. simpl. rewrite Hk in *. exact He.
+    - intros _ _. unfold fresh. simpl. rewrite Hk. exact I. }
+  destruct (isNecessary x1).
+  - intros Hs. split.
+    + apply Inv_InvG. pose proof (SetStale_frame _ _ _ _ Hs) as (Hn & _ & _). rewrite Hn.
+      eapply SetStale_InvG; [apply fresh_own_stable|apply Inv_InvG, H1|exact Hs].
+    + destruct (SetStale_frame _ _ _ _ Hs) as (Hn & Hm & _). auto.
+  - intros [= <-]. auto.
+Qed.
+
+(** * Stabilize *)
+Lemma mq_fold (F : option (nid * Z) * nat -> tnode -> option (nid * Z) * nat) (l : list tnode) :
+  (forall best k x, F (best, k) x =
+     (let h := hrh (meta_ x) in
+      if h =? unset then best
+      else match best with
+           | Some (b, hb) => if h <? hb then Some (k, h) else best
+           | None => Some (k, h)
+           end, S k)) ->
+  forall best k,
+  let r := fst (fold_left F l (best, k)) in
+  (forall b hb, r = Some (b, hb) ->
+     best = Some (b, hb) \/
+     exists i y, b = (k + i)%nat /\ l !! i = Some y /\ hrh (meta_ y) = hb /\ hb <> unset) /\
+  (r = None -> best = None /\ forall i y, l !! i = Some y -> hrh (meta_ y) = unset).
+Proof.
+  intros HF. induction l as [|x l IH]; intros best k; simpl.
+  - split; [auto|]. intros ->. split; [reflexivity|]. intros i y H. discriminate.
+  - rewrite HF. cbv zeta.
+    set (best' := if hrh (meta_ x) =? unset then best
+                  else match best with
+                       | Some (b, hb) => if hrh (meta_ x) <? hb then Some (k, hrh (meta_ x)) else best
+                       | None => Some (k, hrh (meta_ x)) end).
+    destruct (IH best' (S k)) as [IH1 IH2]. split.
+    + intros b hb Hr. destruct (IH1 b hb Hr) as [Hb|(i & y & -> & Hy & Hh & Hne)].
+      * unfold best' in Hb. destruct (Z.eqb_spec (hrh (meta_ x)) unset) as [Hu|Hu]; [left; exact Hb|].
+        destruct best as [[b0 hb0]|].
+        -- destruct (hrh (meta_ x) <? hb0); [|left; exact Hb].
+           injection Hb as <- <-. right. exists O, x. repeat split; auto.
+        -- injection Hb as <- <-. right. exists O, x. repeat split; auto.
+      * right. exists (S i), y. repeat split; auto. lia.
+    + intros Hr. destruct (IH2 Hr) as [Hb Hall]. unfold best' in Hb.
+      destruct (Z.eqb_spec (hrh (meta_ x)) unset) as [Hu|Hu].
+      * split; [exact Hb|]. intros [|i] y Hy; simpl in Hy; [injection Hy as <-; exact Hu|eauto].
+      * destruct best as [[b0 hb0]|]; [destruct (hrh (meta_ x) <? hb0)|]; discriminate.
+Qed.
+
+Lemma minQueued_spec s :
+  match minQueued s with
+  | Some n => exists x, nodes s !! n = Some x /\ hrh (meta_ x) <> unset
+  | None => forall m y, nodes s !! m = Some y -> hrh (meta_ y) = unset
+  end.
+Proof.
+  unfold minQueued.
+  match goal with |- context [fold_left ?f _ _] => set (F := f) end.
+  destruct (mq_fold F (nodes s)) with (best := @None (nid * Z)) (k := O) as [H1 H2].
+  { intros best k x. reflexivity. }
+  destruct (fst (fold_left F (nodes s) (None, O))) as [[b hb]|] eqn:Hr; simpl.
+  - destruct (H1 b hb eq_refl) as [H|(i & y & -> & Hy & Hh & Hne)]; [discriminate|].
+    exists y. split; [exact Hy|congruence].
+  - destruct (H2 eq_refl) as [_ Hall]. exact Hall.
+Qed.
+
+Lemma children_loop cfg L : forall s1 s2,
+  Inv cfg s1 ->
+  rfold (fun s c => cx <-! get s c; if shouldRecomputeChild s cx then heapAdd s c else Ok s) L s1 = Ok s2 ->
+  Inv cfg s2 /\ now s2 = now s1 /\ num s2 = num s1.
+Proof.
+  induction L as [|c L IH]; intros s1 s2 H1; simpl.
+  - intros [= <-]. auto.
+  - destruct (get s1 c) as [cx| |] eqn:Hc; simpl; try discriminate. apply get_Ok in Hc.
+    destruct (shouldRecomputeChild s1 cx).
+    + destruct (heapAdd s1 c) as [s1'| |] eqn:Hadd; simpl; try discriminate.
+      apply heapAdd_inv in Hadd as (cx' & Hc' & Hh & ->). rewrite Hc in Hc'. injection Hc' as <-.
+      intros Hr. destruct (IH _ _ (Inv_put cfg s1 c cx (r_q cx) H1 Hc eq_refl
+                                   (nodeInvG_q _ _ _ _ _ (proj2 (proj2 H1 _ _ Hc)) Hh)) Hr) as (H2 & Hn & Hm).
+      auto.
+    + apply IH, H1.
+Qed.
+
+Lemma loop_iter cfg s n x s' :
+  Inv cfg s -> nodes s !! n = Some x -> hrh (meta_ x) <> unset ->
+  recompute (put s n (with_meta x (set_hrh (meta_ x) unset))) n = Ok s' ->
+  Inv cfg s' /\ now s' = now s /\ num s' = num s.
+Proof.
+  intros HI Hx Hq. pose proof (lookup_lt _ _ _ Hx) as Hlt.
+  unfold recompute. rewrite get_put_same by exact Hlt. cbn [rbind].
+  set (s0 := put s n (with_meta x (set_hrh (meta_ x) unset))).
+  match goal with |- context [stabilizeNode s0 ?a] => set (xa := a) end.
+  destruct (stabilizeNode s0 xa) as [o| |] eqn:Hst; cbn [rbind]; try discriminate.
+  destruct HI as [Hlen Hall]. destruct (Hall _ _ Hx) as [Hcx Hix].
+  assert (Hg : inGraph (meta_ x) = true).
+  { destruct (inGraph (meta_ x)) eqn:Hg; [reflexivity|]. destruct (ni_zero _ _ _ _ _ Hix Hg) as (_ & Hu & _). contradiction. }
+  destruct (stabilizeNode_fresh s0 xa o) as [Hfr Hen]; [apply (ni_entry _ _ _ _ _ Hix)|exact Hst|].
+  intros Hr. unfold s0 in Hr. rewrite put_put in Hr.
+  match type of Hr with rfold _ _ (put s n ?b) = _ => set (xr := b) in * end.
+  assert (H1 : Inv cfg (put s n xr)).
+  { apply (Inv_put cfg s n x xr); [split; auto|exact Hx|reflexivity|].
+    destruct Hix as [Hz Hh He Hf Hn Hl Hkk Hcg Hnm]. constructor; auto.
+    - simpl. rewrite Hg. discriminate.
+    - simpl. lia.
+  }
+  destruct (children_loop cfg _ _ _ H1 Hr) as (H2 & Hn2 & Hm2). auto.
+Qed.
+
+Lemma stabilizeLoop_unfold fuel s :
+  stabilizeLoop fuel s =
+  match minQueued s with
+  | None => Ok s
+  | Some n =>
+    match fuel with
+    | O => OutOfFuel
+    | S fuel =>
+      x <-! get s n;
+      let s := put s n (with_meta x (set_hrh (meta_ x) unset)) in
+      s <-! recompute s n;
+      stabilizeLoop fuel s
+    end
+  end.
+Proof. destruct fuel; reflexivity. Qed.
+
+Lemma stabilizeLoop_Inv cfg fuel : forall s s',
+  Inv cfg s -> stabilizeLoop fuel s = Ok s' ->
+  Inv cfg s' /\ now s' = now s /\ num s' = num s /\
+  forall m y, nodes s' !! m = Some y -> hrh (meta_ y) = unset.
+Proof.
+  induction fuel as [|fuel IH]; intros s s' HI; rewrite stabilizeLoop_unfold;
+    pose proof (minQueued_spec s) as Hmq; destruct (minQueued s) as [n|].
+  - discriminate.
+  - intros [= <-]. auto.
+  - destruct Hmq as (x & Hx & Hq). rewrite (proj2 (get_Ok _ _ _) Hx). cbn [rbind].
+    destruct (recompute _ n) as [s1| |] eqn:Hrec; cbn [rbind]; try discriminate.
+    destruct (loop_iter cfg s n x s1 HI Hx Hq Hrec) as (H1 & Hn1 & Hm1).
+    intros Hl. destruct (IH _ _ H1 Hl) as (H2 & Hn2 & Hm2 & Hall).
+    split; [exact H2|]. split; [congruence|]. split; [congruence|exact Hall].
+  - intros [= <-]. auto.
+Qed.
+
+Lemma nodeInvG_num_mono len now numv numv' x F :
+  numv <= numv' -> nodeInvG len now numv x F -> nodeInvG len now numv' x F.
+Proof. intros Hle [Hz Hh He Hf Hn Hl Hkk Hcg Hnm]. constructor; auto; lia. Qed.
+
+Lemma Stabilize_Inv cfg s s' :
+  Inv cfg s -> Stabilize s = Ok s' ->
+  Inv cfg s' /\ now s' = now s /\
+  forall m y, nodes s' !! m = Some y -> hrh (meta_ y) = unset.
+Proof.
+  intros HI. unfold Stabilize. destruct (stabilizeLoop _ s) as [s1| |] eqn:Hl; cbn [rbind]; try discriminate.
+  intros [= <-]. destruct (stabilizeLoop_Inv _ _ _ _ HI Hl) as (H1 & Hn & Hm & Hall).
+  split; [|split; [exact Hn|exact Hall]].
+  destruct H1 as [Hlen H1]. split; [exact Hlen|]. intros m y Hy. simpl in *.
+  destruct (H1 m y Hy) as [Hk Hi]. split; [exact Hk|].
+  apply (nodeInvG_num_mono _ _ (num s1)); [lia|exact Hi].
+Qed.
+
+(** * Every operation keeps the invariant *)
+Lemma init_Inv now0 cfg : cfg_ok now0 cfg -> Inv cfg (init now0 cfg).
+Proof.
+  intros Hc. split; [simpl; apply map_length|].
+  intros m y Hy. simpl in Hy. change (map (new_node now0) cfg) with (new_node now0 <$> cfg) in Hy.
+  rewrite list_lookup_fmap in Hy. destruct (cfg !! m) as [k|] eqn:Hk; [|discriminate].
+  injection Hy as <-. split; [reflexivity|]. specialize (Hc m k Hk).
+  constructor; simpl; try discriminate; auto.
+  - intros _. repeat split.
+  - unfold entry_ok. simpl. destruct k as [v0|when|start every|initial steps|input at_ before]; simpl; auto.
+    + destruct Hc. repeat split; auto; try lia. f_equal. ring.
+    + destruct (nextBoundary (sort_steps steps) now0) as [e|] eqn:Hnb; [|exact I].
+      destruct (nextBoundary_elem _ _ _ Hnb) as (st & Hin & -> & _).
+      exists st. split; [apply elem_of_sort, Hin|reflexivity].
+Qed.
+
+Lemma step_Inv gd cfg now0 s o s' :
+  cfg_ok now0 cfg -> Inv cfg s -> step gd s o = Ok s' -> Inv cfg s'.
+Proof.
+  intros Hc HI. destruct o; simpl; intros H.
+  - eapply Advance_Inv; eauto.
+  - eapply Observe_Inv; eauto.
+  - eapply Unobserve_Inv; eauto.
+  - eapply SetInput_Inv; eauto.
+  - eapply Stabilize_Inv; eauto.
+Qed.
+
+Lemma step_now gd cfg now0 s o s' :
+  cfg_ok now0 cfg -> Inv cfg s -> step gd s o = Ok s' ->
+  now s' = match o with OAdvance t => Z.max (now s) t | _ => now s end.
+Proof.
+  intros Hc HI. destruct o; simpl; intros H.
+  - eapply Advance_Inv; eauto.
+  - eapply Observe_Inv; eauto.
+  - eapply Unobserve_Inv; eauto.
+  - eapply SetInput_Inv; eauto.
+  - eapply Stabilize_Inv; eauto.
+Qed.
+
+Lemma run_Inv gd cfg now0 ops : forall s s',
+  cfg_ok now0 cfg -> Inv cfg s -> run gd s ops = Ok s' ->
+  Inv cfg s' /\ now s' = clock_after (now s) ops.
+Proof.
+  induction ops as [|o ops IH]; intros s s' Hc HI; unfold run; simpl.
+  - intros [= <-]. auto.
+  - destruct (step gd s o) as [s1| |] eqn:Hs; simpl; try discriminate. intros Hr.
+    pose proof (step_Inv _ _ _ _ _ _ Hc HI Hs) as H1.
+    pose proof (step_now _ _ _ _ _ _ Hc HI Hs) as Hn1.
+    destruct (IH s1 s' Hc H1 Hr) as [H2 Hn2]. split; [exact H2|].
+    rewrite Hn2, Hn1. unfold clock_after. simpl. destruct o; reflexivity.
+Qed.
+
+(** * The value laws *)
+Lemma clock_after_app now0 ops1 ops2 :
+  clock_after now0 (ops1 ++ ops2) = clock_after (clock_after now0 ops1) ops2.
+Proof. unfold clock_after. apply fold_left_app. Qed.
+
+(** after a successful pass every necessary node is fresh *)
+Lemma fresh_after_pass gd now0 cfg ops s n x :
+  cfg_ok now0 cfg ->
+  run gd (init now0 cfg) (ops ++ [OStabilize]) = Ok s ->
+  nodes s !! n = Some x -> isNecessary x = true ->
+  fresh (now s) x /\ now s = clock_after now0 ops.
+Proof.
+  intros Hc Hrun Hx Hnec. unfold run in Hrun. rewrite rfold_app in Hrun.
+  destruct (rfold (step gd) ops (init now0 cfg)) as [s0| |] eqn:H0; simpl in Hrun; try discriminate.
+  destruct (Stabilize s0) as [s1| |] eqn:H1; simpl in Hrun; try discriminate. injection Hrun as <-.
+  destruct (run_Inv gd cfg now0 ops _ _ Hc (init_Inv _ _ Hc) H0) as [HI0 Hn0].
+  destruct (Stabilize_Inv cfg _ _ HI0 H1) as (HI1 & Hn1 & Hall).
+  split; [|rewrite Hn1, Hn0; reflexivity].
+  destruct HI1 as [_ HI1]. destruct (HI1 _ _ Hx) as [_ Hi].
+  apply (ni_fresh _ _ _ _ _ Hi); [|eauto]. rewrite <- (ni_nec _ _ _ _ _ Hi). exact Hnec.
+Qed.
+
+Theorem at_correct gd now0 cfg ops s n x when :
+  cfg_ok now0 cfg ->
+  run gd (init now0 cfg) (ops ++ [OStabilize]) = Ok s ->
+  nodes s !! n = Some x -> kind_ x = KAt when -> isNecessary x = true ->
+  value (own_ x) = b2z (when <=? now s) /\ now s = clock_after now0 ops.
+Proof.
+  intros Hc Hrun Hx Hk Hnec. destruct (fresh_after_pass _ _ _ _ _ _ _ Hc Hrun Hx Hnec) as [Hf Hn].
+  unfold fresh in Hf. rewrite Hk in Hf. auto.
+Qed.
+
+Theorem intervals_correct gd now0 cfg ops s n x start every :
+  cfg_ok now0 cfg ->
+  run gd (init now0 cfg) (ops ++ [OStabilize]) = Ok s ->
+  nodes s !! n = Some x -> kind_ x = KIntervals start every -> isNecessary x = true ->
+  value (own_ x) = (now s - start) / every /\ start <= now s /\ now s = clock_after now0 ops.
+Proof.
+  intros Hc Hrun Hx Hk Hnec. destruct (fresh_after_pass _ _ _ _ _ _ _ Hc Hrun Hx Hnec) as [Hf Hn].
+  unfold fresh in Hf. rewrite Hk in Hf. split; [exact Hf|]. split; [|exact Hn].
+  destruct (run_Inv gd cfg now0 _ _ _ Hc (init_Inv _ _ Hc) Hrun) as [[_ HI] _].
+  destruct (HI _ _ Hx) as [_ Hi]. pose proof (ni_entry _ _ _ _ _ Hi) as He.
+  unfold entry_ok in He. rewrite Hk in He. tauto.
+Qed.
+
+Theorem step_correct gd now0 cfg ops s n x initial steps :
+  cfg_ok now0 cfg ->
+  run gd (init now0 cfg) (ops ++ [OStabilize]) = Ok s ->
+  nodes s !! n = Some x -> kind_ x = KStep initial steps -> isNecessary x = true ->
+  value (own_ x) = step_closed initial steps (now s) /\ now s = clock_after now0 ops.
+Proof.
+  intros Hc Hrun Hx Hk Hnec. destruct (fresh_after_pass _ _ _ _ _ _ _ Hc Hrun Hx Hnec) as [Hf Hn].
+  unfold fresh in Hf. rewrite Hk in Hf. destruct Hf as [Hv _]. rewrite Hv, stepValue_closed. auto.
+Qed.
+
+(** * No early wake *)
+Theorem due_has_trigger gd now0 cfg ops s t n x :
+  cfg_ok now0 cfg -> run gd (init now0 cfg) ops = Ok s ->
+  n ∈ due s t -> nodes s !! n = Some x ->
+  exists tau, trigger_of (kind_ x) tau /\ tau <= t.
+Proof.
+  intros Hc Hrun Hdue Hx.
+  destruct (run_Inv gd cfg now0 _ _ _ Hc (init_Inv _ _ Hc) Hrun) as [[_ HI] _].
+  destruct (HI _ _ Hx) as [_ Hi]. pose proof (ni_entry _ _ _ _ _ Hi) as He.
+  apply elem_of_due in Hdue as (y & a & Hy & Ha & Hle). rewrite Hx in Hy. injection Hy as <-.
+  exists a. split; [|exact Hle]. unfold entry_ok, trigger_of in *.
+  destruct (kind_ x) as [v0|when|start every|initial steps|input at_ before].
+  - congruence.
+  - destruct He as [He|[He _]]; congruence.
+  - destruct He as (He & Hv & _). exists (value (own_ x) + 1). split; [lia|congruence].
+  - rewrite Ha in He. exact He.
+  - destruct He as [He _]. destruct (taken (own_ x)); congruence.
+Qed.
+
+(* Advance touches only the nodes that are due *)
+Lemma SetStale_loop_others gd L : forall s1 s2,
+  rfold (SetStale gd) L s1 = Ok s2 -> forall m, m ∉ L -> nodes s2 !! m = nodes s1 !! m.
+Proof.
+  induction L as [|n L IH]; intros s1 s2; simpl.
+  - intros [= <-]. auto.
+  - destruct (SetStale gd s1 n) as [s1'| |] eqn:Hst; simpl; try discriminate. intros Hr m Hm.
+    rewrite (IH _ _ Hr) by (intros H; apply Hm; right; exact H).
+    apply SetStale_inv in Hst as (x & Hx & [(_ & _ & ->)|(_ & ->)]); [reflexivity|].
+    apply lookup_put_other. intros ->. apply Hm. left.
+Qed.
+
+Theorem advance_only_due gd s t s' :
+  Advance gd s t = Ok s' -> forall m, m ∉ due s t -> nodes s' !! m = nodes s !! m.
+Proof.
+  unfold Advance. destruct (t <? now s); [intros [= <-]; auto|].
+  intros Hr m Hm. apply (SetStale_loop_others gd _ _ _ Hr). exact Hm.
+Qed.
+
+(** * The code as it is: advancing past the trigger of a node outside the graph faults *)
+Theorem advance_total_refuted :
+  exists (now0 : Z) (cfg : list kind) (ops : list op),
+    cfg_ok now0 cfg /\ Forall (op_ok (length cfg)) ops /\
+    run false (init now0 cfg) ops = Crash HeapNegativeHeight.
+Proof.
+  exists 0, [KAt 5], [OAdvance 5]. split; [|split; [repeat constructor|reflexivity]].
+  intros [|n] k Hk; simpl in Hk; [injection Hk as <-; exact I|discriminate].
+Qed.
+
+(* the same after the node has been observed, computed and unobserved again *)
+Example advance_after_unobserve_faults :
+  run false (init 0 [KAt 5]) [OObserve 0%nat; OStabilize; OUnobserve 0%nat; OAdvance 5] = Crash HeapNegativeHeight.
+Proof. reflexivity. Qed.
+
+(* the repaired variant: the same operations go through, and the node woken while it was
+   outside the graph reads the right value after it is observed and a pass runs *)
+Example guarded_wake_while_unnecessary :
+  exists s x, run true (init 0 [KAt 5]) [OAdvance 5; OObserve 0%nat; OStabilize] = Ok s /\
+              nodes s !! 0%nat = Some x /\ value (own_ x) = 1.
+Proof. eexists _, _. split; [vm_compute; reflexivity|]. split; reflexivity. Qed.
+
+(** * The repaired variant never faults *)
+Lemma SetStale_ok cfg s n F :
+  InvG cfg s F -> (n < length (nodes s))%nat -> exists s', SetStale true s n = Ok s'.
+Proof.
+  intros [Hlen Hall] Hlt. destruct (lookup_lt_is_Some_2 _ _ Hlt) as [x Hx].
+  destruct (Hall _ _ Hx) as [_ Hi].
+  unfold SetStale. rewrite (proj2 (get_Ok _ _ _) Hx). cbn [rbind andb].
+  destruct (Z.eqb_spec (height (meta_ x)) unset) as [Hu|Hu]; [eauto|].
+  destruct (hrh (meta_ x) =? unset); [|eauto].
+  assert (Hg : inGraph (meta_ x) = true).
+  { destruct (inGraph (meta_ x)) eqn:Hg; [reflexivity|]. destruct (ni_zero _ _ _ _ _ Hi Hg) as (_ & _ & Hh). contradiction. }
+  erewrite heapAdd_Ok; [eauto|apply lookup_put_same, Hlt|].
+  simpl. apply (ni_height _ _ _ _ _ Hi Hg).
+Qed.
+
+Lemma SetStale_loop_ok cfg F L : own_stable F -> forall s1,
+  InvG cfg s1 F -> Forall (fun m => (m < length cfg)%nat) L ->
+  exists s2, rfold (SetStale true) L s1 = Ok s2.
+Proof.
+  intros HF. induction L as [|n L IH]; intros s1 H1 HL; simpl; [eauto|].
+  inversion HL as [|? ? Hn HL']; subst.
+  destruct (SetStale_ok cfg s1 n F H1) as [s1' Hs]; [rewrite (proj1 H1); exact Hn|].
+  rewrite Hs. simpl. apply IH; [|exact HL']. eapply SetStale_InvG; eauto.
+Qed.
+
+Lemma Advance_ok cfg s t : Inv cfg s -> exists s', Advance true s t = Ok s'.
+Proof.
+  intros HI. unfold Advance. destruct (Z.ltb_spec t (now s)) as [Hlt|Hge]; [eauto|].
+  set (s0 := State t (num s) (nodes s)).
+  apply (SetStale_loop_ok cfg (fun _ => True)).
+  - intros x x' _ _ _. exact I.
+  - destruct HI as [Hlen Hall]. split; [exact Hlen|]. intros m y Hy. destruct (Hall m y Hy) as [Hk Hi].
+    split; [exact Hk|]. destruct Hi as [Hz Hh He Hf Hn Hl Hkk Hcg Hnm]. constructor; auto.
+    simpl. eapply entry_ok_mono; eauto.
+  - apply Forall_forall. intros m Hm. apply elem_of_list_In in Hm.
+    apply elem_of_due in Hm as (y & a & Hy & _).
+    rewrite <- (proj1 HI). eapply lookup_lt; eauto.
+Qed.
+
+Lemma SetInput_ok cfg s n v :
+  Inv cfg s -> (n < length (nodes s))%nat -> exists s', SetInput true s n v = Ok s'.
+Proof.
+  intros HI Hlt. destruct (lookup_lt_is_Some_2 _ _ Hlt) as [x Hx].
+  unfold SetInput. rewrite (proj2 (get_Ok _ _ _) Hx). cbn [rbind].
+  destruct (isVar x) eqn:Hv; [|eauto].
+  set (x1 := with_own x (Own v (taken (own_ x)) (entry (own_ x)))).
+  destruct (isNecessary x1); [|eauto].
+  apply (SetStale_ok cfg _ n (fresh (now s))); [|rewrite put_length; exact Hlt].
+  apply Inv_InvG. destruct HI as [Hlen Hall]. destruct (Hall _ _ Hx) as [Hcx Hix].
+  apply (Inv_put cfg s n x x1); [split; auto|exact Hx|reflexivity|].
+  unfold isVar in Hv. destruct (kind_ x) eqn:Hk; try discriminate.
+  destruct Hix as [Hz Hh He Hf Hn Hl Hkk Hcg Hnm]. constructor; auto.
+  - unfold entry_ok in *. simpl. rewrite Hk in *. exact He.
+  - intros _ _. unfold fresh. simpl. rewrite Hk. exact I.
+Qed.
+
+Lemma children_loop_ok cfg L : forall s1,
+  Inv cfg s1 -> Forall (fun c => (c < length cfg)%nat) L ->
+  exists s2, rfold (fun s c => cx <-! get s c; if shouldRecomputeChild s cx then heapAdd s c else Ok s) L s1 = Ok s2.
+Proof.
+  induction L as [|c L IH]; intros s1 H1 HL; simpl; [eauto|].
+  inversion HL as [|? ? Hc HL']; subst.
+  destruct (lookup_lt_is_Some_2 (nodes s1) c) as [cx Hcx]; [rewrite (proj1 H1); exact Hc|].
+  rewrite (proj2 (get_Ok _ _ _) Hcx). cbn [rbind].
+  destruct (shouldRecomputeChild s1 cx) eqn:Hsh; [|cbn [rbind]; apply IH; auto].
+  destruct (proj2 H1 _ _ Hcx) as [_ Hi].
+  assert (Hnec : isNecessary cx = true).
+  { unfold shouldRecomputeChild in Hsh. destruct (isNecessary cx); [reflexivity|].
+    rewrite orb_true_r in Hsh. discriminate. }
+  assert (Hh : 0 <= height (meta_ cx)).
+  { apply (ni_height _ _ _ _ _ Hi). rewrite <- (ni_nec _ _ _ _ _ Hi). exact Hnec. }
+  rewrite (heapAdd_Ok s1 c cx Hcx Hh). cbn [rbind]. apply IH; [|exact HL'].
+  apply (Inv_put cfg s1 c cx (r_q cx) H1 Hcx eq_refl). apply nodeInvG_q; auto.
+Qed.
+
+Lemma recompute_ok cfg now0 s n x :
+  cfg_ok now0 cfg -> Inv cfg s -> nodes s !! n = Some x -> hrh (meta_ x) <> unset ->
+  exists s', recompute (put s n (with_meta x (set_hrh (meta_ x) unset))) n = Ok s'.
+Proof.
+  intros Hc HI Hx Hq. pose proof (lookup_lt _ _ _ Hx) as Hlt.
+  unfold recompute. rewrite get_put_same by exact Hlt. cbn [rbind].
+  set (s0 := put s n (with_meta x (set_hrh (meta_ x) unset))).
+  match goal with |- context [stabilizeNode s0 ?a] => set (xa := a) end.
+  destruct HI as [Hlen Hall]. destruct (Hall _ _ Hx) as [Hcx Hix].
+  assert (Hst : exists o, stabilizeNode s0 xa = Ok o).
+  { unfold stabilizeNode. change (kind_ xa) with (kind_ x).
+    destruct (kind_ x) as [v0|when|start every|initial steps|input at_ before] eqn:Hk; eauto.
+    destruct (taken (own_ xa)); [eauto|]. destruct (now s0 <? at_); [eauto|].
+    destruct (snapshot_parent cfg now0 s n x input at_ before Hc (conj Hlen Hall) Hx Hk) as (px & v0 & Hpx & _ & Hpn).
+    unfold s0. rewrite get_put_other by exact Hpn. rewrite (proj2 (get_Ok _ _ _) Hpx). simpl. eauto. }
+  destruct Hst as [o Hst]. rewrite Hst. cbn [rbind].
+  assert (Hg : inGraph (meta_ x) = true).
+  { destruct (inGraph (meta_ x)) eqn:Hg; [reflexivity|]. destruct (ni_zero _ _ _ _ _ Hix Hg) as (_ & Hu & _). contradiction. }
+  destruct (stabilizeNode_fresh s0 xa o) as [Hfr Hen]; [apply (ni_entry _ _ _ _ _ Hix)|exact Hst|].
+  unfold s0. rewrite put_put.
+  match goal with |- context [rfold _ _ (put s n ?b)] => set (xr := b) end.
+  apply (children_loop_ok cfg).
+  - apply (Inv_put cfg s n x xr); [split; auto|exact Hx|reflexivity|].
+    destruct Hix as [Hz Hh He Hf Hn Hl Hkk Hcg Hnm]. constructor; auto.
+    + simpl. rewrite Hg. discriminate.
+    + simpl. lia.
+  - exact (ni_kids _ _ _ _ _ Hix).
+Qed.
+
+Definition no_crash {X} (r : res X) : Prop := (exists x, r = Ok x) \/ r = OutOfFuel.
+
+Lemma stabilizeLoop_no_crash cfg now0 fuel : forall s,
+  cfg_ok now0 cfg -> Inv cfg s -> no_crash (stabilizeLoop fuel s).
+Proof.
+  induction fuel as [|fuel IH]; intros s Hc HI; rewrite stabilizeLoop_unfold;
+    pose proof (minQueued_spec s) as Hmq; destruct (minQueued s) as [n|].
+  - right. reflexivity.
+  - left. eauto.
+  - destruct Hmq as (x & Hx & Hq). rewrite (proj2 (get_Ok _ _ _) Hx). cbn [rbind].
+    destruct (recompute_ok cfg now0 s n x Hc HI Hx Hq) as [s1 Hrec]. rewrite Hrec. cbn [rbind].
+    apply IH; [exact Hc|]. eapply loop_iter; eauto.
+  - left. eauto.
+Qed.
+
+Lemma step_no_crash cfg now0 s o :
+  cfg_ok now0 cfg -> Inv cfg s -> op_ok (length cfg) o -> no_crash (step true s o).
+Proof.
+  intros Hc HI Ho. pose proof (proj1 HI) as Hlen. destruct o as [t|n|n|n v|]; simpl in *.
+  - left. apply (Advance_ok cfg), HI.
+  - left. destruct (Observe_ok cfg now0 s n Hc HI) as (s' & H & _); [lia|eauto].
+  - left. destruct (Unobserve_ok cfg now0 s n Hc HI) as (s' & H & _); [lia|eauto].
+  - left. apply (SetInput_ok cfg); [exact HI|lia].
+  - unfold Stabilize. destruct (stabilizeLoop_no_crash cfg now0 (2 * length (nodes s) + 1) s Hc HI) as [[s1 H]|H];
+      rewrite H; [left; simpl; eauto|right; reflexivity].
+Qed.
+
+(** no sequence of operations on existing nodes ever yields [Crash] in the repaired
+    variant; and whenever it yields a state, that state satisfies the invariant *)
+Theorem run_no_crash cfg now0 ops : forall s,
+  cfg_ok now0 cfg -> Inv cfg s -> Forall (op_ok (length cfg)) ops ->
+  (exists s', run true s ops = Ok s' /\ Inv cfg s') \/ run true s ops = OutOfFuel.
+Proof.
+  induction ops as [|o ops IH]; intros s Hc HI Hops; unfold run; simpl.
+  - left. eauto.
+  - inversion Hops as [|? ? Ho Hops']; subst.
+    destruct (step_no_crash cfg now0 s o Hc HI Ho) as [[s1 H]|H]; rewrite H; simpl; [|right; reflexivity].
+    apply IH; auto. eapply step_Inv; eauto.
+Qed.
+
+Theorem advance_total cfg now0 ops :
+  cfg_ok now0 cfg -> Forall (op_ok (length cfg)) ops ->
+  forall w, run true (init now0 cfg) ops <> Crash w.
+Proof.
+  intros Hc Hops w. destruct (run_no_crash cfg now0 ops (init now0 cfg) Hc (init_Inv _ _ Hc) Hops) as [(s' & H & _)|H];
+    rewrite H; discriminate.
+Qed.
+
+(* Clock.Advance itself never fails on a reachable state, whatever the jump *)
+Theorem advance_never_fails cfg now0 ops s t :
+  cfg_ok now0 cfg -> run true (init now0 cfg) ops = Ok s ->
+  exists s', Advance true s t = Ok s' /\ Inv cfg s' /\ now s' = Z.max (now s) t.
+Proof.
+  intros Hc Hrun. destruct (run_Inv true cfg now0 ops _ _ Hc (init_Inv _ _ Hc) Hrun) as [HI _].
+  destruct (Advance_ok cfg s t HI) as [s' H]. exists s'. split; [exact H|].
+  destruct (Advance_Inv true cfg s t s' HI H) as (H1 & H2 & _). auto.
+Qed.
+
+(** * Snapshot: refinement to the ghost of Clock.v *)
+
+(* a step that only touches heap membership, heights and stamps *)
+Definition mframe (s s' : state) : Prop :=
+  forall k y', nodes s' !! k = Some y' ->
+    exists y, nodes s !! k = Some y /\ own_ y' = own_ y /\ kind_ y' = kind_ y /\
+              observers (meta_ y') = observers (meta_ y) /\ children (meta_ y') = children (meta_ y) /\
+              inGraph (meta_ y') = inGraph (meta_ y).
+
+Lemma mframe_refl s : mframe s s.
+Proof. intros k y' Hy'. exists y'. auto 10. Qed.
+
+Lemma mframe_trans s1 s2 s3 : mframe s1 s2 -> mframe s2 s3 -> mframe s1 s3.
+Proof.
+  intros H12 H23 k y3 Hy3. destruct (H23 k y3 Hy3) as (y2 & Hy2 & ? & ? & ? & ? & ?).
+  destruct (H12 k y2 Hy2) as (y1 & Hy1 & ? & ? & ? & ? & ?). exists y1. repeat split; congruence.
+Qed.
+
+Lemma mframe_put s k x x' :
+  nodes s !! k = Some x -> own_ x' = own_ x -> kind_ x' = kind_ x ->
+  observers (meta_ x') = observers (meta_ x) -> children (meta_ x') = children (meta_ x) ->
+  inGraph (meta_ x') = inGraph (meta_ x) -> mframe s (put s k x').
+Proof.
+  intros Hx Ho Hk Hob Hch Hg j y' Hy'. destruct (decide (j = k)) as [->|Hne].
+  - rewrite lookup_put_same in Hy' by (eapply lookup_lt; eauto). injection Hy' as <-. exists x. auto 10.
+  - rewrite lookup_put_other in Hy' by exact Hne. exists y'. auto 10.
+Qed.
+
+Lemma rfold_mframe {X} (f : state -> X -> res state) (L : list X) :
+  (forall s a s', f s a = Ok s' -> mframe s s') ->
+  forall s s', rfold f L s = Ok s' -> mframe s s'.
+Proof.
+  intros Hf. induction L as [|a L IH]; intros s s'; simpl.
+  - intros [= <-]. apply mframe_refl.
+  - destruct (f s a) as [s1| |] eqn:Hs; simpl; try discriminate. intros Hr.
+    eapply mframe_trans; [eapply Hf; eauto|eapply IH; eauto].
+Qed.
+
+Lemma SetStale_mframe gd s m s' : SetStale gd s m = Ok s' -> mframe s s'.
+Proof.
+  intros H. apply SetStale_inv in H as (x & Hx & [(_ & _ & ->)|(_ & ->)]); [apply mframe_refl|].
+  apply (mframe_put s m x); auto; unfold stale_rec; destruct (hrh (meta_ x) =? unset); reflexivity.
+Qed.
+
+Lemma Advance_mframe gd s t s' : Advance gd s t = Ok s' -> mframe s s'.
+Proof.
+  unfold Advance. destruct (t <? now s); [intros [= <-]; apply mframe_refl|].
+  intros Hr. apply (rfold_mframe _ _ (SetStale_mframe gd)) in Hr. exact Hr.
+Qed.
+
+Lemma heapAdd_mframe s c s' : heapAdd s c = Ok s' -> mframe s s'.
+Proof.
+  intros H. apply heapAdd_inv in H as (x & Hx & _ & ->). apply (mframe_put s c x); auto.
+Qed.
+
+Lemma SetInput_frame gd s m v s' :
+  SetInput gd s m v = Ok s' ->
+  forall k y', nodes s' !! k = Some y' ->
+    exists y, nodes s !! k = Some y /\ kind_ y' = kind_ y /\
+              observers (meta_ y') = observers (meta_ y) /\ children (meta_ y') = children (meta_ y) /\
+              own_ y' = (if decide (k = m) then if isVar y then Own v (taken (own_ y)) (entry (own_ y)) else own_ y
+                         else own_ y).
+Proof.
+  unfold SetInput. destruct (get s m) as [x| |] eqn:Hx; cbn [rbind]; try discriminate. apply get_Ok in Hx.
+  destruct (isVar x) eqn:Hv.
+  2: { intros [= <-] k y' Hy'. exists y'. repeat split; auto. destruct (decide (k = m)) as [->|]; [|reflexivity].
+       rewrite Hx in Hy'. injection Hy' as <-. rewrite Hv. reflexivity. }
+  set (x1 := with_own x (Own v (taken (own_ x)) (entry (own_ x)))).
+  assert (H1 : forall s1, mframe (put s m x1) s1 ->
+          forall k y', nodes s1 !! k = Some y' ->
+            exists y, nodes s !! k = Some y /\ kind_ y' = kind_ y /\
+              observers (meta_ y') = observers (meta_ y) /\ children (meta_ y') = children (meta_ y) /\
+              own_ y' = (if decide (k = m) then if isVar y then Own v (taken (own_ y)) (entry (own_ y)) else own_ y
+                         else own_ y)).
+  { intros s1 Hm k y' Hy'. destruct (Hm k y' Hy') as (y1 & Hy1 & Ho & Hk & Hob & Hch & _).
+    destruct (decide (k = m)) as [->|Hne].
+    - rewrite lookup_put_same in Hy1 by (eapply lookup_lt; eauto). injection Hy1 as <-.
+      exists x. rewrite Hv. repeat split; auto.
+    - rewrite lookup_put_other in Hy1 by exact Hne. exists y1. repeat split; auto. }
+  destruct (isNecessary x1).
+  - intros Hs. apply H1. eapply SetStale_mframe; eauto.
+  - intros [= <-]. apply H1, mframe_refl.
+Qed.
+
+(* one iteration of the pass: the recomputed node takes the result of its own Stabilize,
+   everything else keeps its own fields *)
+Lemma loop_iter_frame s m x s' :
+  nodes s !! m = Some x ->
+  recompute (put s m (with_meta x (set_hrh (meta_ x) unset))) m = Ok s' ->
+  exists o, stabilizeNode (put s m (with_meta x (set_hrh (meta_ x) unset)))
+                          (with_meta x (Meta (observers (meta_ x)) (children (meta_ x)) (height (meta_ x)) unset
+                                             (num s) (changedAt (meta_ x)) (setAt (meta_ x))
+                                             (numRecomputes (meta_ x) + 1) (inGraph (meta_ x)))) = Ok o /\
+    forall k y', nodes s' !! k = Some y' ->
+      exists y, nodes s !! k = Some y /\ kind_ y' = kind_ y /\
+                observers (meta_ y') = observers (meta_ y) /\ children (meta_ y') = children (meta_ y) /\
+                inGraph (meta_ y') = inGraph (meta_ y) /\
+                own_ y' = (if decide (k = m) then o else own_ y).
+Proof.
+  intros Hx. pose proof (lookup_lt _ _ _ Hx) as Hlt.
+  unfold recompute. rewrite get_put_same by exact Hlt. cbn [rbind].
+  set (s0 := put s m (with_meta x (set_hrh (meta_ x) unset))).
+  match goal with |- context [stabilizeNode s0 ?a] => set (xa := a) end.
+  destruct (stabilizeNode s0 xa) as [o| |] eqn:Hst; cbn [rbind]; try discriminate.
+  intros Hr. exists o. split; [exact Hst|].
+  unfold s0 in Hr. rewrite put_put in Hr.
+  match type of Hr with rfold _ _ (put s m ?b) = _ => set (xr := b) in * end.
+  assert (Hm : mframe (put s m xr) s').
+  { revert Hr. apply rfold_mframe. intros s1 c s1'.
+    destruct (get s1 c) as [cx| |]; cbn [rbind]; try discriminate.
+    destruct (shouldRecomputeChild s1 cx); [apply heapAdd_mframe|intros [= <-]; apply mframe_refl]. }
+  intros k y' Hy'. destruct (Hm k y' Hy') as (y1 & Hy1 & Ho & Hk & Hob & Hch & Hg).
+  destruct (decide (k = m)) as [->|Hne].
+  - rewrite lookup_put_same in Hy1 by exact Hlt. injection Hy1 as <-. exists x. repeat split; auto.
+  - rewrite lookup_put_other in Hy1 by exact Hne. exists y1. repeat split; auto.
+Qed.
+
+Section Snapshot.
+  Variables (n p : nid) (at_ before v0 : Z) (cfg : list kind) (now0 : Z).
+  Hypothesis Hcfg : cfg_ok now0 cfg.
+  Hypothesis Hn : cfg !! n = Some (KSnapshot p at_ before).
+  Hypothesis Hp : cfg !! p = Some (KVar v0).
+
+  Definition cap_taken (g : ghost) : bool := match g_cap g with Some _ => true | None => false end.
+  Definition cap_value (g : ghost) : Z := match g_cap g with Some v => v | None => before end.
+
+  Definition GR (s : state) (g : ghost) : Prop :=
+    now s = g_now g /\
+    (exists x, nodes s !! n = Some x /\ observers (meta_ x) = g_obs g /\
+               taken (own_ x) = cap_taken g /\ value (own_ x) = cap_value g) /\
+    (exists px, nodes s !! p = Some px /\ value (own_ px) = g_in g).
+
+  Lemma np_ne : n <> p.
+  Proof. intros ->. rewrite Hn in Hp. discriminate. Qed.
+
+  Lemma node_n s x : Inv cfg s -> nodes s !! n = Some x ->
+    kind_ x = KSnapshot p at_ before /\ isVar x = false /\ children (meta_ x) = [].
+  Proof.
+    intros [_ HI] Hx. destruct (HI _ _ Hx) as [Hk Hi]. rewrite Hn in Hk. injection Hk as Hk.
+    assert (Hv : isVar x = false) by (unfold isVar; rewrite <- Hk; reflexivity).
+    split; [auto|]. split; [exact Hv|]. apply (ni_leaf _ _ _ _ _ Hi Hv).
+  Qed.
+
+  Lemma node_p s px : Inv cfg s -> nodes s !! p = Some px -> kind_ px = KVar v0 /\ isVar px = true.
+  Proof.
+    intros [_ HI] Hx. destruct (HI _ _ Hx) as [Hk _]. rewrite Hp in Hk. injection Hk as Hk.
+    split; [auto|]. unfold isVar. rewrite <- Hk. reflexivity.
+  Qed.
+
+  Lemma lookup_exists s k kd : Inv cfg s -> cfg !! k = Some kd -> exists y, nodes s !! k = Some y.
+  Proof.
+    intros [Hlen _] Hk. apply lookup_lt_is_Some_2. rewrite Hlen. eapply lookup_lt_Some; eauto.
+  Qed.
+
+  (* the snapshot's own Stabilize, as a function of the clock and its input's value *)
+  Definition snap_stab (nowv pv : Z) (o : own) : own :=
+    if taken o then o else if nowv <? at_ then o else Own pv true None.
+
+  Lemma snap_stab_idem nowv pv o : snap_stab nowv pv (snap_stab nowv pv o) = snap_stab nowv pv o.
+  Proof.
+    unfold snap_stab. destruct (taken o) eqn:Ht; [rewrite Ht; reflexivity|].
+    destruct (nowv <? at_) eqn:Hl; [rewrite Ht; reflexivity|reflexivity].
+  Qed.
+
+  (* the pass: node n's own fields end up either untouched or stabilized; p's are untouched *)
+  Lemma loop_snapshot fuel : forall s s' o0 pv obs ing,
+    Inv cfg s -> stabilizeLoop fuel s = Ok s' ->
+    (exists x, nodes s !! n = Some x /\ observers (meta_ x) = obs /\ inGraph (meta_ x) = ing /\
+               (own_ x = o0 \/ (ing = true /\ own_ x = snap_stab (now s) pv o0))) ->
+    (exists px, nodes s !! p = Some px /\ value (own_ px) = pv) ->
+    (exists x, nodes s' !! n = Some x /\ observers (meta_ x) = obs /\ inGraph (meta_ x) = ing /\
+               (own_ x = o0 \/ (ing = true /\ own_ x = snap_stab (now s) pv o0))) /\
+    (exists px, nodes s' !! p = Some px /\ value (own_ px) = pv).
+  Proof.
+    induction fuel as [|fuel IH]; intros s s' o0 pv obs ing HI; rewrite stabilizeLoop_unfold;
+      pose proof (minQueued_spec s) as Hmq; destruct (minQueued s) as [m|].
+    - discriminate.
+    - intros [= <-]. auto.
+    - destruct Hmq as (x & Hx & Hq). rewrite (proj2 (get_Ok _ _ _) Hx). cbn [rbind].
+      destruct (recompute _ m) as [s1| |] eqn:Hrec; cbn [rbind]; try discriminate.
+      destruct (loop_iter cfg s m x s1 HI Hx Hq Hrec) as (H1 & Hn1 & Hm1).
+      destruct (loop_iter_frame s m x s1 Hx Hrec) as (o & Hst & Hfr).
+      intros Hl (xn & Hxn & Hobs & Hing & Hown) (px & Hpx & Hpv).
+      rewrite <- Hn1. apply (IH s1 s' o0 pv obs ing H1 Hl).
+      + destruct (lookup_exists s1 n _ H1 Hn) as [xn' Hxn'].
+        destruct (Hfr n xn' Hxn') as (y & Hy & Hk & Hob & Hch & Hg & Ho).
+        rewrite Hxn in Hy. injection Hy as <-.
+        exists xn'. split; [exact Hxn'|]. split; [congruence|]. split; [congruence|].
+        rewrite Hn1. destruct (decide (n = m)) as [<-|Hne]; [|rewrite Ho; exact Hown].
+        (* node n itself was recomputed *)
+        rewrite Hx in Hxn. injection Hxn as <-.
+        destruct (node_n s x HI Hx) as (Hkx & _ & _).
+        assert (Hgx : inGraph (meta_ x) = true).
+        { destruct (inGraph (meta_ x)) eqn:Hgx; [reflexivity|].
+          destruct (proj2 HI _ _ Hx) as [_ Hi]. destruct (ni_zero _ _ _ _ _ Hi Hgx) as (_ & Hu & _). contradiction. }
+        assert (Hoo : o = snap_stab (now s) pv (own_ x)).
+        { unfold stabilizeNode in Hst. simpl in Hst. rewrite Hkx in Hst. unfold snap_stab.
+          destruct (taken (own_ x)); [congruence|]. destruct (now s <? at_); [congruence|].
+          rewrite get_put_other in Hst by (apply not_eq_sym, np_ne).
+          rewrite (proj2 (get_Ok _ _ _) Hpx) in Hst. simpl in Hst. congruence. }
+        right. split; [congruence|]. rewrite Ho, Hoo.
+        destruct Hown as [->|[_ ->]]; [reflexivity|apply snap_stab_idem].
+      + destruct (lookup_exists s1 p _ H1 Hp) as [px' Hpx'].
+        destruct (Hfr p px' Hpx') as (y & Hy & Hk & Hob & Hch & Hg & Ho).
+        rewrite Hpx in Hy. injection Hy as <-.
+        exists px'. split; [exact Hpx'|]. rewrite Ho.
+        destruct (decide (p = m)) as [<-|]; [|exact Hpv].
+        (* the var itself was recomputed: its Stabilize changes nothing *)
+        rewrite Hx in Hpx. injection Hpx as <-.
+        destruct (node_p s x HI Hx) as (Hkx & _).
+        unfold stabilizeNode in Hst. simpl in Hst. rewrite Hkx in Hst. injection Hst as <-. exact Hpv.
+    - intros [= <-]. auto.
+  Qed.
+
+  Lemma step_GR gd s o s' g :
+    Inv cfg s -> step gd s o = Ok s' -> GR s g -> GR s' (ghost_step n p at_ g o).
+  Proof.
+    intros HI Hs (Hnow & (x & Hx & Hobs & Htk & Hval) & (px & Hpx & Hpv)).
+    pose proof (step_Inv gd cfg now0 s o s' Hcfg HI Hs) as HI'.
+    destruct (lookup_exists s' n _ HI' Hn) as [x' Hx'].
+    destruct (lookup_exists s' p _ HI' Hp) as [px' Hpx'].
+    destruct (node_n s x HI Hx) as (Hkx & Hvx & Hchx).
+    destruct o as [t|m|m|m v|]; simpl in Hs |- *.
+    - (* Advance *)
+      destruct (Advance_Inv gd cfg s t s' HI Hs) as (_ & Hn' & _).
+      pose proof (Advance_mframe gd s t s' Hs) as Hm.
+      destruct (Hm n x' Hx') as (y & Hy & Ho & _ & Hob & _). rewrite Hx in Hy. injection Hy as <-.
+      destruct (Hm p px' Hpx') as (y & Hy & Hop & _). rewrite Hpx in Hy. injection Hy as <-.
+      split; [simpl; congruence|]. split; [exists x'|exists px']; simpl; rewrite ?Ho, ?Hop; repeat split; auto; congruence.
+    - (* Observe *)
+      destruct (Observe_Inv cfg now0 s m s' Hcfg HI Hs) as (_ & Hn' & _ & (Hf1 & Hf2 & Hf3)).
+      destruct (Hf1 p px' Hpx') as (y & Hy & Hop & _). rewrite Hpx in Hy. injection Hy as <-.
+      destruct (Nat.eqb_spec m n) as [->|Hne].
+      + destruct (Hf3 x Hx) as (x'' & Hx'' & Hob & _). rewrite Hx' in Hx''. injection Hx'' as <-.
+        destruct (Hf1 n x' Hx') as (y & Hy & Ho & _). rewrite Hx in Hy. injection Hy as <-.
+        split; [simpl; congruence|]. split; [exists x'|exists px']; simpl; rewrite ?Ho, ?Hop; repeat split; auto; congruence.
+      + rewrite (Hf2 n x Hx (not_eq_sym Hne) Hvx) in Hx'. injection Hx' as <-.
+        split; [congruence|]. split; [exists x|exists px']; rewrite ?Hop; repeat split; auto.
+    - (* Unobserve *)
+      destruct (Unobserve_Inv cfg now0 s m s' Hcfg HI Hs) as (_ & Hn' & _ & (Hf1 & Hf2 & Hf3)).
+      destruct (Hf1 p px' Hpx') as (y & Hy & Hop & _). rewrite Hpx in Hy. injection Hy as <-.
+      destruct (Nat.eqb_spec m n) as [->|Hne].
+      + destruct (Hf3 x Hx) as (x'' & Hx'' & Hob & _). rewrite Hx' in Hx''. injection Hx'' as <-.
+        destruct (Hf1 n x' Hx') as (y & Hy & Ho & _). rewrite Hx in Hy. injection Hy as <-.
+        split; [simpl; congruence|]. split; [exists x'|exists px']; simpl; rewrite ?Ho, ?Hop; repeat split; auto; congruence.
+      + rewrite (Hf2 n x Hx (not_eq_sym Hne) Hvx) in Hx'. injection Hx' as <-.
+        split; [congruence|]. split; [exists x|exists px']; rewrite ?Hop; repeat split; auto.
+    - (* SetInput *)
+      destruct (SetInput_Inv gd cfg s m v s' HI Hs) as (_ & Hn' & _).
+      pose proof (SetInput_frame gd s m v s' Hs) as Hf.
+      destruct (Hf n x' Hx') as (y & Hy & _ & Hob & _ & Ho). rewrite Hx in Hy. injection Hy as <-.
+      destruct (Hf p px' Hpx') as (y & Hy & _ & _ & _ & Hop). rewrite Hpx in Hy. injection Hy as <-.
+      assert (Ho' : own_ x' = own_ x) by (rewrite Ho; destruct (decide (n = m)); [rewrite Hvx|]; reflexivity).
+      destruct (node_p s px HI Hpx) as (_ & Hvp). rewrite Hvp in Hop.
+      destruct (Nat.eqb_spec m p) as [->|Hne].
+      + rewrite decide_True in Hop by reflexivity.
+        split; [simpl; congruence|]. split; [exists x'|exists px']; simpl; rewrite ?Ho', ?Hop; repeat split; auto; congruence.
+      + rewrite decide_False in Hop by congruence.
+        split; [congruence|]. split; [exists x'|exists px']; rewrite ?Ho', ?Hop; repeat split; auto; congruence.
+    - (* Stabilize *)
+      unfold Stabilize in Hs. destruct (stabilizeLoop _ s) as [s1| |] eqn:Hl; cbn [rbind] in Hs; try discriminate.
+      injection Hs as <-. simpl in Hx', Hpx'.
+      destruct (stabilizeLoop_Inv cfg _ _ _ HI Hl) as (H1 & Hn1 & _ & Hall).
+      destruct (loop_snapshot _ s s1 (own_ x) (value (own_ px)) (observers (meta_ x)) (inGraph (meta_ x)) HI Hl)
+        as ((xn & Hxn & Hob & Hg & Hown) & (pxn & Hpxn & Hpvn)).
+      { exists x. auto. }
+      { exists px. auto. }
+      rewrite Hx' in Hxn. injection Hxn as <-. rewrite Hpx' in Hpxn. injection Hpxn as <-.
+      assert (Hfinal : own_ x' = snap_stab (now s) (value (own_ px)) (own_ x) \/
+                       (own_ x' = own_ x /\ (taken (own_ x) = true \/ inGraph (meta_ x) = false \/ now s < at_))).
+      { destruct Hown as [Ho|[_ Ho]]; [|left; exact Ho].
+        destruct (taken (own_ x)) eqn:Ht; [right; auto|].
+        destruct (inGraph (meta_ x)) eqn:Hgx; [|right; auto].
+        destruct (Z.ltb_spec (now s) at_) as [Hlt|Hge]; [right; auto|].
+        (* in the graph, not taken, time reached: the final state is fresh, so it must have been taken *)
+        exfalso. destruct (proj2 H1 _ _ Hx') as [_ Hi].
+        pose proof (ni_fresh _ _ _ _ _ Hi ltac:(congruence) (Hall _ _ Hx')) as Hfr.
+        unfold fresh in Hfr. destruct (node_n s1 x' H1 Hx') as (Hkx' & _). rewrite Hkx' in Hfr.
+        rewrite Ho, Ht in Hfr. specialize (Hfr eq_refl). lia. }
+      destruct (proj2 HI _ _ Hx) as [_ Hix].
+      assert (Hnecg : inGraph (meta_ x) = (0 <? g_obs g)%nat).
+      { rewrite <- (ni_nec _ _ _ _ _ Hix). unfold isNecessary. rewrite Hchx, Hobs. simpl. apply orb_false_r. }
+      unfold GR, cap_taken, cap_value in *. destruct (g_cap g) as [c|] eqn:Hc; simpl.
+      + (* already taken: nothing changes *)
+        assert (Ho' : own_ x' = own_ x).
+        { destruct Hfinal as [Ho|[Ho _]]; [|exact Ho]. rewrite Ho. unfold snap_stab. rewrite Htk. reflexivity. }
+        rewrite Hc. split; [congruence|]. split; [exists x'|exists px']; rewrite ?Ho'; repeat split; auto; congruence.
+      + rewrite <- Hnow.
+        destruct ((0 <? g_obs g)%nat && (at_ <=? now s)) eqn:Hcond; simpl; rewrite ?Hc.
+        * apply andb_true_iff in Hcond as [Hob1 Hat]. apply Z.leb_le in Hat.
+          assert (Ho' : own_ x' = Own (value (own_ px)) true None).
+          { destruct Hfinal as [Ho|[_ [H|[H|H]]]]; try congruence; try lia.
+            rewrite Ho. unfold snap_stab. rewrite Htk. destruct (Z.ltb_spec (now s) at_); [lia|reflexivity]. }
+          split; [congruence|]. split; [exists x'|exists px']; rewrite ?Ho'; simpl; repeat split; auto; congruence.
+        * assert (Ho' : own_ x' = own_ x).
+          { destruct Hfinal as [Ho|[Ho _]]; [|exact Ho]. rewrite Ho. unfold snap_stab. rewrite Htk.
+            apply andb_false_iff in Hcond as [Hob0|Hat].
+            - (* not observed: not in the graph, and the final own fields are the initial ones *)
+              destruct Hown as [Ho1|[Hg1 _]]; [|congruence]. rewrite Ho in Ho1. unfold snap_stab in Ho1. rewrite Htk in Ho1. exact Ho1.
+            - apply Z.leb_gt in Hat. destruct (Z.ltb_spec (now s) at_); [reflexivity|lia]. }
+          split; [congruence|]. split; [exists x'|exists px']; rewrite ?Ho'; repeat split; auto; congruence.
+  Qed.
+
+  Lemma run_GR gd ops : forall s s' g,
+    Inv cfg s -> run gd s ops = Ok s' -> GR s g -> GR s' (fold_left (ghost_step n p at_) ops g).
+  Proof.
+    induction ops as [|o ops IH]; intros s s' g HI; unfold run; simpl.
+    - intros [= <-]. auto.
+    - destruct (step gd s o) as [s1| |] eqn:Hs; simpl; try discriminate. intros Hr Hg.
+      apply (IH s1 s' _ (step_Inv gd cfg now0 s o s1 Hcfg HI Hs) Hr). eapply step_GR; eauto.
+  Qed.
+
+  Theorem snapshot_correct_aux gd ops s x :
+    run gd (init now0 cfg) ops = Ok s -> nodes s !! n = Some x ->
+    value (own_ x) = snapshot_closed n p at_ before now0 v0 ops.
+  Proof.
+    intros Hrun Hx.
+    assert (H0 : GR (init now0 cfg) (Ghost now0 0 v0 None)).
+    { split; [reflexivity|]. unfold init. simpl.
+      change (map (new_node now0) cfg) with (new_node now0 <$> cfg). rewrite !list_lookup_fmap, Hn, Hp. simpl.
+      split; eexists; split; try reflexivity; auto. }
+    destruct (run_GR gd ops _ _ _ (init_Inv _ _ Hcfg) Hrun H0) as (_ & (x' & Hx' & _ & _ & Hv) & _).
+    rewrite Hx in Hx'. injection Hx' as <-. rewrite Hv. reflexivity.
+  Qed.
+End Snapshot.
+
+Theorem snapshot_correct gd now0 cfg ops s n x p at_ before v0 :
+  cfg_ok now0 cfg -> cfg !! p = Some (KVar v0) ->
+  run gd (init now0 cfg) ops = Ok s ->
+  nodes s !! n = Some x -> kind_ x = KSnapshot p at_ before ->
+  value (own_ x) = snapshot_closed n p at_ before now0 v0 ops.
+Proof.
+  intros Hc Hp Hrun Hx Hk.
+  destruct (run_Inv gd cfg now0 ops _ _ Hc (init_Inv _ _ Hc) Hrun) as [[_ HI] _].
+  destruct (HI _ _ Hx) as [Hcn _]. rewrite Hk in Hcn.
+  eapply snapshot_correct_aux; eauto.
+Qed.
+
+(** * The pass ends within its fuel: every node is recomputed at most once per pass
+
+    The potential of a state is the number of nodes that are queued or have not been
+    recomputed in the current pass.  Recomputing a node takes it out of both sets, and the
+    children it queues were already counted (a child is queued only if it has not been
+    recomputed in this pass: no stamp exceeds the pass number). *)
+Definition w (numv : Z) (y : tnode) : nat :=
+  if negb (hrh (meta_ y) =? unset) || (recomputedAt (meta_ y) <? numv) then 1%nat else 0%nat.
+Definition Phi (s : state) : nat := sum_list_with (w (num s)) (nodes s).
+
+Lemma sum_insert {X} (f : X -> nat) (l : list X) : forall k x x',
+  l !! k = Some x -> (sum_list_with f (<[k := x']> l) + f x = sum_list_with f l + f x')%nat.
+Proof.
+  induction l as [|a l IH]; intros k x x' Hk; [discriminate|].
+  destruct k as [|k]; simpl in *.
+  - injection Hk as <-. lia.
+  - specialize (IH k x x' Hk). lia.
+Qed.
+
+Lemma sum_elem {X} (f : X -> nat) (l : list X) k x : l !! k = Some x -> (f x <= sum_list_with f l)%nat.
+Proof.
+  revert k; induction l as [|a l IH]; intros k Hk; [discriminate|].
+  destruct k as [|k]; simpl in *; [injection Hk as <-; lia|]. specialize (IH k Hk). lia.
+Qed.
+
+Lemma sum_le_length {X} (f : X -> nat) (l : list X) :
+  (forall y, (f y <= 1)%nat) -> (sum_list_with f l <= length l)%nat.
+Proof. intros Hf. induction l as [|a l IH]; simpl; [lia|]. specialize (Hf a). lia. Qed.
+
+Lemma Phi_put s k x x' :
+  nodes s !! k = Some x -> (Phi (put s k x') + w (num s) x = Phi s + w (num s) x')%nat.
+Proof. intros Hx. unfold Phi. simpl. apply sum_insert, Hx. Qed.
+
+Lemma should_w cfg s cx :
+  Inv cfg s -> (exists c, nodes s !! c = Some cx) -> shouldRecomputeChild s cx = true -> w (num s) cx = 1%nat.
+Proof.
+  intros [_ HI] [c Hc] Hsh. destruct (HI _ _ Hc) as [_ Hi]. pose proof (ni_num _ _ _ _ _ Hi) as Hnum.
+  unfold w. unfold shouldRecomputeChild in Hsh.
+  destruct (negb (hrh (meta_ cx) =? unset) || negb (isNecessary cx)); [discriminate|].
+  destruct (Z.ltb_spec (recomputedAt (meta_ cx)) (num s)) as [Hlt|Hge]; [rewrite orb_true_r; reflexivity|].
+  exfalso. rewrite andb_false_r in Hsh. unfold isStale in Hsh.
+  destruct (isVar cx); [discriminate|].
+  apply orb_true_iff in Hsh as [Hz|Hp].
+  - apply Z.eqb_eq in Hz. lia.
+  - apply andb_true_iff in Hp as [_ Hp]. apply existsb_exists in Hp as (pp & _ & Hpp).
+    destruct (nodes s !! pp) as [px|] eqn:Hpx; [|discriminate].
+    destruct (HI _ _ Hpx) as [_ Hip]. pose proof (ni_chg _ _ _ _ _ Hip). apply Z.ltb_lt in Hpp. lia.
+Qed.
+
+Lemma children_loop_Phi cfg L : forall s1 s2,
+  Inv cfg s1 ->
+  rfold (fun s c => cx <-! get s c; if shouldRecomputeChild s cx then heapAdd s c else Ok s) L s1 = Ok s2 ->
+  Phi s2 = Phi s1.
+Proof.
+  induction L as [|c L IH]; intros s1 s2 H1; simpl.
+  - intros [= <-]. reflexivity.
+  - destruct (get s1 c) as [cx| |] eqn:Hc; simpl; try discriminate. apply get_Ok in Hc.
+    destruct (shouldRecomputeChild s1 cx) eqn:Hsh.
+    + destruct (heapAdd s1 c) as [s1'| |] eqn:Hadd; simpl; try discriminate.
+      apply heapAdd_inv in Hadd as (cx' & Hc' & Hh & ->). rewrite Hc in Hc'. injection Hc' as <-.
+      intros Hr.
+      rewrite (IH _ _ (Inv_put cfg s1 c cx (r_q cx) H1 Hc eq_refl
+                         (nodeInvG_q _ _ _ _ _ (proj2 (proj2 H1 _ _ Hc)) Hh)) Hr).
+      pose proof (Phi_put s1 c cx (r_q cx) Hc) as HP.
+      rewrite (should_w cfg s1 cx H1 (ex_intro _ c Hc) Hsh) in HP.
+      assert (Hw : w (num s1) (r_q cx) = 1%nat).
+      { unfold w. simpl. destruct (Z.eqb_spec (height (meta_ cx)) unset) as [Hu|]; [unfold unset in Hu; lia|reflexivity]. }
+      rewrite Hw in HP. lia.
+    + apply IH, H1.
+Qed.
+
+Lemma loop_iter_Phi cfg s n x s' :
+  Inv cfg s -> nodes s !! n = Some x -> hrh (meta_ x) <> unset ->
+  recompute (put s n (with_meta x (set_hrh (meta_ x) unset))) n = Ok s' ->
+  (Phi s' + 1 = Phi s)%nat.
+Proof.
+  intros HI Hx Hq. pose proof (lookup_lt _ _ _ Hx) as Hlt.
+  unfold recompute. rewrite get_put_same by exact Hlt. cbn [rbind].
+  set (s0 := put s n (with_meta x (set_hrh (meta_ x) unset))).
+  match goal with |- context [stabilizeNode s0 ?a] => set (xa := a) end.
+  destruct (stabilizeNode s0 xa) as [o| |] eqn:Hst; cbn [rbind]; try discriminate.
+  destruct HI as [Hlen Hall]. destruct (Hall _ _ Hx) as [Hcx Hix].
+  assert (Hg : inGraph (meta_ x) = true).
+  { destruct (inGraph (meta_ x)) eqn:Hg; [reflexivity|]. destruct (ni_zero _ _ _ _ _ Hix Hg) as (_ & Hu & _). contradiction. }
+  destruct (stabilizeNode_fresh s0 xa o) as [Hfr Hen]; [apply (ni_entry _ _ _ _ _ Hix)|exact Hst|].
+  intros Hr. unfold s0 in Hr. rewrite put_put in Hr.
+  match type of Hr with rfold _ _ (put s n ?b) = _ => set (xr := b) in * end.
+  assert (H1 : Inv cfg (put s n xr)).
+  { apply (Inv_put cfg s n x xr); [split; auto|exact Hx|reflexivity|].
+    destruct Hix as [Hz Hh He Hf Hn Hl Hkk Hcg Hnm]. constructor; auto.
+    - simpl. rewrite Hg. discriminate.
+    - simpl. lia.
+  }
+  rewrite (children_loop_Phi cfg _ _ _ H1 Hr).
+  pose proof (Phi_put s n x xr Hx) as HP.
+  assert (Hwx : w (num s) x = 1%nat).
+  { unfold w. destruct (Z.eqb_spec (hrh (meta_ x)) unset); [contradiction|reflexivity]. }
+  assert (Hwr : w (num s) xr = 0%nat).
+  { unfold w, xr. simpl. rewrite Z.ltb_irrefl. reflexivity. }
+  rewrite Hwx, Hwr in HP. lia.
+Qed.
+
+Lemma stabilizeLoop_total cfg now0 fuel : forall s,
+  cfg_ok now0 cfg -> Inv cfg s -> (Phi s <= fuel)%nat -> exists s', stabilizeLoop fuel s = Ok s'.
+Proof.
+  induction fuel as [|fuel IH]; intros s Hc HI HP; rewrite stabilizeLoop_unfold;
+    pose proof (minQueued_spec s) as Hmq; destruct (minQueued s) as [n|]; eauto.
+  - destruct Hmq as (x & Hx & Hq). exfalso.
+    pose proof (sum_elem (w (num s)) (nodes s) n x Hx) as Hle. fold (Phi s) in Hle.
+    unfold w in Hle. destruct (Z.eqb_spec (hrh (meta_ x)) unset); [contradiction|]. simpl in Hle. lia.
+  - destruct Hmq as (x & Hx & Hq). rewrite (proj2 (get_Ok _ _ _) Hx). cbn [rbind].
+    destruct (recompute_ok cfg now0 s n x Hc HI Hx Hq) as [s1 Hrec]. rewrite Hrec. cbn [rbind].
+    destruct (loop_iter cfg s n x s1 HI Hx Hq Hrec) as (H1 & _ & _).
+    pose proof (loop_iter_Phi cfg s n x s1 HI Hx Hq Hrec).
+    apply IH; [exact Hc|exact H1|lia].
+Qed.
+
+Lemma Stabilize_total cfg now0 s :
+  cfg_ok now0 cfg -> Inv cfg s -> exists s', Stabilize s = Ok s'.
+Proof.
+  intros Hc HI. unfold Stabilize.
+  destruct (stabilizeLoop_total cfg now0 (2 * length (nodes s) + 1) s Hc HI) as [s1 H].
+  - pose proof (sum_le_length (w (num s)) (nodes s)) as Hle. unfold Phi.
+    assert (forall y, (w (num s) y <= 1)%nat) by (intros y; unfold w; destruct (_ || _); lia).
+    specialize (Hle H). lia.
+  - rewrite H. simpl. eauto.
+Qed.
+
+Lemma step_total cfg now0 s o :
+  cfg_ok now0 cfg -> Inv cfg s -> op_ok (length cfg) o -> exists s', step true s o = Ok s'.
+Proof.
+  intros Hc HI Ho. pose proof (proj1 HI) as Hlen. destruct o as [t|n|n|n v|]; simpl in *.
+  - apply (Advance_ok cfg), HI.
+  - destruct (Observe_ok cfg now0 s n Hc HI) as (s' & H & _); [lia|eauto].
+  - destruct (Unobserve_ok cfg now0 s n Hc HI) as (s' & H & _); [lia|eauto].
+  - apply (SetInput_ok cfg); [exact HI|lia].
+  - apply (Stabilize_total cfg now0); auto.
+Qed.
+
+(** in the repaired variant every sequence of operations on existing nodes runs to the end:
+    no fault, no pass that fails to end, and the invariant holds of the result *)
+Theorem run_total cfg now0 ops : forall s,
+  cfg_ok now0 cfg -> Inv cfg s -> Forall (op_ok (length cfg)) ops ->
+  exists s', run true s ops = Ok s' /\ Inv cfg s'.
+Proof.
+  induction ops as [|o ops IH]; intros s Hc HI Hops; unfold run; simpl; [eauto|].
+  inversion Hops as [|? ? Ho Hops']; subst.
+  destruct (step_total cfg now0 s o Hc HI Ho) as [s1 H]. rewrite H. simpl.
+  apply IH; auto. eapply step_Inv; eauto.
+Qed.
+
+(* passes always end, in both variants *)
+Theorem pass_ends gd cfg now0 ops s :
+  cfg_ok now0 cfg -> run gd (init now0 cfg) ops = Ok s -> exists s', Stabilize s = Ok s'.
+Proof.
+  intros Hc Hrun. destruct (run_Inv gd cfg now0 ops _ _ Hc (init_Inv _ _ Hc) Hrun) as [HI _].
+  eapply Stabilize_total; eauto.
+Qed.
+
+Theorem advance_total_full cfg now0 ops :
+  cfg_ok now0 cfg -> Forall (op_ok (length cfg)) ops ->
+  exists s, run true (init now0 cfg) ops = Ok s /\ Inv cfg s.
+Proof. intros Hc Hops. apply (run_total cfg now0); auto. apply init_Inv, Hc. Qed.
